@@ -12,2051 +12,2157 @@ Definition show_fres (r : fres) : string :=
   end.
 Definition check (rs : list rune) : string := digest (show_fres (format_res rs)).
 Definition full (rs : list rune) : string := show_fres (format_res rs).
-Eval vm_compute in ("<<<M1066>>>" ++ check (runes_of_ascii "MetaData	pack
-{  } MetaData	trueish
+Eval vm_compute in ("<<<M265>>>" ++ check (runes_of_ascii "MetaData MetaDataX
 {
-    string o,
-u // @lengthOf(
-roots , Header calculatedFrom
-`doc` , zchar[42] metadata `u8 x,`
-    , Packet lengthOf , u128 lengthOf ,} root packet Logon{ repeat/// triple
-zchar[ 7 ]
-// packet A { u8 x, }
-// `tick` ""quote"" 'q'
-roots ,  match u as x  {  [""" ++ [28040; 24687]%N ++ runes_of_ascii """
-    , 0,""a	b""
-    // @lengthOf(
-    , 3/// triple
-,
-    ""a\""b"", ""// no comment""	,""packet"" , ""`tick`"" ]	: o ,[0  ,	""x y""] : u ""a\""b"" : pack [ 65535 , 007
-    , """ ++ [233]%N ++ runes_of_ascii "t" ++ [233]%N ++ runes_of_ascii """
-// " ++ [27880; 37322]%N ++ runes_of_ascii "
-// @lengthOf(
-,42] // trailing space 
-: f32a 255
-    : i8i8//	t
-, 0123456789 :
-Pad
-,
-} , Foo , @calculatedFrom( ""x y"" )
-body{
-    repeat string metadata`it's` , repeat zchar
-    x_y_z , lengthOf {Logon
-    pack
-, match options1
-as leftPad// c
-{ //x
-10:a1
-, """ ++ [28040; 24687]%N ++ runes_of_ascii """
-    :	A , [
+    Foo BodyLength // packet A { u8 x, }
+, As T , }options { calculatedFrom = true  ;// " ++ [27880; 37322]%N ++ runes_of_ascii "
+Header
+= true}
 // trailing space 
-// " ++ [128512]%N ++ runes_of_ascii " emoji
-""" ++ [28040; 24687]%N ++ runes_of_ascii """ ,65535 , 0123456789 , 0
-] : i64_ , 1 // " ++ [27880; 37322]%N ++ runes_of_ascii "
-: string_ ,
-65535	:calculatedFrom ,
-}
-    , crc { u128, u128
-@lengthOf( x) , u16 falsey @lengthOf( u )	, } , char[ 42] options1
-@calculatedFrom( ""packet"")
-`u8 x,`,} , float/// triple
-float  `u8 x,` , }
-,match  packetx
-    as T { ""packet""
-// @lengthOf(
-// @lengthOf(
-: As,
-007 : BodyLength , 00:
-trueish
-, [
-    ""abc""  ,
-10
-    , 3 , 10,
-007
-    ,
-// " ++ [128512]%N ++ runes_of_ascii " emoji
 // c
-""\n""
-, 1
-//	t
-// a // b
-] : _x ,}	, o
-    `say ""hi""` ,
-@leftPad
-( '0' )
-@tag( 10 ) @calculatedFrom( ""\" ++ [233]%N ++ runes_of_ascii """ )
-u32 //	t
-i64_
-    // `tick` ""quote"" 'q'
-    `{ , }`
-,x
-body `line1
-line2`//	t
-,
-}
-packet
-    repeatCount {i64 rootA @calculatedFrom( """ ++ [128512]%N ++ runes_of_ascii """ )	`" ++ [28040; 24687; 31867; 22411]%N ++ runes_of_ascii "` , @rightPad( ' ' ) @rightPad
-(	)  int32 rootA	@calculatedFrom( ""{,}"" ) , i16
-    BodyLength // " ++ [27880; 37322]%N ++ runes_of_ascii "
-, @calculatedFrom( ""`tick`"" )
-Logon
-    lengthOf `two words`
-, zchar[ 4294967296]
-x_y_z
-    `" ++ [28040; 24687; 31867; 22411]%N ++ runes_of_ascii "` , string zchar
-    `say ""hi""`
-// `tick` ""quote"" 'q'
-// c
-, @tag( 1 ) f32 x_y_z `it's`
-, } root packet string_ {// @lengthOf(
-@leftPad
-( '0'
-) // a // b
-@calculatedFrom( ""// no comment"" ) @leftPad
-( ) // " ++ [27880; 37322]%N ++ runes_of_ascii "
-char[
-1]
-tag
-    `say ""hi""` , @calculatedFrom( // " ++ [27880; 37322]%N ++ runes_of_ascii "
-""it's""
-)
-    match BodyLength  as A {
-    255 :Foo,}, u16 x_y_z
-@calculatedFrom( ""CRC32""
-    ) , o  MetaDataX `// not a comment`, options1  @lengthOf(
-x ) , match  float as
-A{ [65535 ] :
-    leftPad
-, [ 007
-,
-7 , ""a\\"",1
-] : msg_type,  10 :u128 """ ++ [28040; 24687]%N ++ runes_of_ascii """ : As , }  ,}
-")).
-Eval vm_compute in ("<<<M3685>>>" ++ check (runes_of_ascii "
-root
-packet 	 // c
-falsey
-
-{ roots
-{ 
-repeat 
-x_y_z
-	,} , char[]
-
-    T
-    `
-`  ,
-	char[
-
-    3 ] T	/// triple
-    ,
-
-zchar  {
-    repeat  zchar[ 
-65535
-]
-	rootA
-
-`tab	here`,
-int32
-
-    leftPad
-
-    , 
-},
-// packet A { u8 x, }
-
-// `tick` ""quote"" 'q'
-	  repeat
-	Packet 
-        //	t
-    	,
-
-repeat
-
-    char[	00]
-body
-`" ++ [233]%N ++ runes_of_ascii "`,
-
-    @tag( 00 // @lengthOf(
-    ) 
-a1  i64_
-    , i8i8
-BodyLength  `{ , }`
-, match crc as
-    u8x  
-      // a // b
-  //	t
-      {	[  
-      // `tick` ""quote"" 'q'
-  0]:
-
-matchKey,[  0123456789  ,""a\\"" ,	""abc"" ] :
-As	,
-
-""" ++ [128512]%N ++ runes_of_ascii """
-    :
-tag
-,
-7 : u8x ,
-42:	f32a  00 :	options1 }	// trailing space 
-	,
-} packet // " ++ [27880; 37322]%N ++ runes_of_ascii "
-
-	MetaDataX{ 
+packet tag {	@leftPad (
+    '\x00') @lengthOf( Foo)// a // b
 @tag(
-
-    42  )
-@leftPad 
-(
-    )@leftPad
-
-    //x
-(
-)body
+    42)string body
+    ,
+@calculatedFrom(""abc"")
+char[ 00
+]	len,@calculatedFrom( """ ++ [128512]%N ++ runes_of_ascii """
+)	repeat tag ,match msg_type as // @lengthOf(
+Header {	65535
+//
+// @lengthOf(
+: roots , ""abc"" //
+: string_ , [ 007 , 0
+    // `tick` ""quote"" 'q'
+    ,	007 ]:
+// " ++ [128512]%N ++ runes_of_ascii " emoji
+// a // b
+zchar 255
+    //
+    : Packet [ ""packet"" , 0 ,
+    ""\" ++ [233]%N ++ runes_of_ascii """ , ""x y"" , 65535 , """ ++ [233]%N ++ runes_of_ascii "t" ++ [233]%N ++ runes_of_ascii """ , 0123456789
+,
+7]
+: //
+matchKey} ,repeat
+int64
+metadata`
+`
+,
 i64_
-, } 
-packet int 
-{@calculatedFrom( 
-        // " ++ [27880; 37322]%N ++ runes_of_ascii "
-  //
-
-""" ++ [233]%N ++ runes_of_ascii "t" ++ [233]%N ++ runes_of_ascii """
-
-    )
-
-    @tag(	42  ) @leftPad (
-'\x00'
-) repeat
-	u8x	,
-	repeat len  ,  @tag(
-
-255
-
-    )match
-    calculatedFrom
-as
-	Z9_{	""CRC32""
-:
-
-    len  ,
-""packet"" 
-:  falsey
-,
-
-    [
-65535	, 42  //x
-	] // @lengthOf(
-    : charz
-,}// @lengthOf(
-	, i8i8 , match i8i8 as 
-Foo  // trailing space 
-  {	""a\\""
-    : x  ,}
-,
-	@leftPad	(	)	char
-	crc  `say ""hi""`	,
-    }	options {	Pad
-
-    = zchar[  // trailing space 
-	0 ]; pack
-= """"  // c
-      ;
-}
-
-    root	packet
-lengthOf
-	{@leftPad ('0' ) A  
-  // trailing space 
-	@calculatedFrom(
-
-// " ++ [27880; 37322]%N ++ runes_of_ascii "
-//
-  ""\" ++ [233]%N ++ runes_of_ascii """
-	)
-
-, @calculatedFrom(
-""abc"" 	 // c
-
-) repeat	// c
-  char[]	a1
-    ,  repeat
-int	trueish,
-	@rightPad(
-'\x00'
-
-)	// a // b
-	zchar[
-    4294967296 ]
-
-_x ,
-
-repeat stringy  //
-x,@tag(	00 
-)
-@lengthOf( int )
-    @tag(  0  )
-
-u8
-T 
-,
-    @tag( 1
-
-    )
-@lengthOf(a1
-	) @calculatedFrom(
-
-    ""it's""
-) 
-char[
-10
-]
-    body
-, @lengthOf(f32a
-    ) rootA@calculatedFrom(
-""{,}""
-) ,  // " ++ [128512]%N ++ runes_of_ascii " emoji
-	}
-
-")).
-Eval vm_compute in ("<<<M4488>>>" ++ check (runes_of_ascii "options {
-    leftPad = false;
-    Packet = int16;
-    // c
-    len = ' '
-    calculatedFrom = 65535;
-}
-
-MetaData Header {
-    int32 Z9_,
-    f32 zchar `u8 x,`,
-    char[10] x,
-    asx _x `two words`,
-    zchar[1] calculatedFrom `it's`,
-}
-
-// a // b
-//	t
-packet o {
-    u msg_type,
-    @leftPad('0')
-    repeat BodyLength u `" ++ [233]%N ++ runes_of_ascii "`,
-    @leftPad('0')
-    @tag(1)
-    zchar[1] i64_ @calculatedFrom(""" ++ [233]%N ++ runes_of_ascii "t" ++ [233]%N ++ runes_of_ascii """) `it's`,
-    @lengthOf(x)
-    @tag(255)
-    @tag(7)
-    repeat zchar[10] chars `two words`,
-    @lengthOf(Foo)
-    rootA `" ++ [233]%N ++ runes_of_ascii "`,
-}
-
-packet o {
-    pack {
-        repeat i8 lengthOf,
-        char int `u8 x,`,
-        //	t
-        // a // b
-        i64 matchKey @lengthOf(x_y_z),
-    },
-    zchar[007] metadata `say ""hi""`,
-    @rightPad(' ')
-    match MetaDataX as x_y_z {
-        0 : roots,
-        """" : chars,
-        """ ++ [28040; 24687]%N ++ runes_of_ascii """ : T,
-        0 : Foo,
-        [
-            0123456789, 0, 10, """ ++ [28040; 24687]%N ++ runes_of_ascii """, """ ++ [233]%N ++ runes_of_ascii "t" ++ [233]%N ++ runes_of_ascii """,
-            ""a	b"", """ ++ [233]%N ++ runes_of_ascii "t" ++ [233]%N ++ runes_of_ascii """, """ ++ [128512]%N ++ runes_of_ascii """
-        ] : options1,
-        0123456789 : u,
-        // " ++ [128512]%N ++ runes_of_ascii " emoji
-    },
-    len @calculatedFrom(""a\""b""),
-    @tag(42)
-    @lengthOf(x_y_z)
-    // a // b
-    /// triple
-    leftPad chars,//	t
-    i8 options1 @lengthOf(i64_),
-    repeat matchKey `
-    `,
-    o @calculatedFrom(""`tick`""),
-    @lengthOf(len)
-    len {
-        match float as rootA {
-            [
-                7, 4294967296, 65535, ""x y"", ""a\""b"",
-                """", """ ++ [233]%N ++ runes_of_ascii "t" ++ [233]%N ++ runes_of_ascii """, ""abc""
-            ] : float,
-        },
-        f32 Packet,
-        u16 a1,
-        zchar[65535] stringy,
-    },
-}
-
-root packet metadata {
-    @tag(4294967296)
-    // " ++ [27880; 37322]%N ++ runes_of_ascii "
-    string u8x `a\`,
-}")).
-Eval vm_compute in ("<<<M360>>>" ++ check (runes_of_ascii "root packet falsey { @lengthOf(Pad	)repeatCount
-    @calculatedFrom( ""1"")
-    ,@calculatedFrom( """"
-)
-@lengthOf(
-stringy ) A
-leftPad , @calculatedFrom(""{,}""
-    ) // " ++ [128512]%N ++ runes_of_ascii " emoji
-f32 calculatedFrom `{ , }` , char[007
-    ] a1,
-repeat char[ 007 ] repeatCount`it's`
-, char[] pack `line1
-line2`, } packet // " ++ [128512]%N ++ runes_of_ascii " emoji
-trueish{ repeat zchar[10 ]options1 `a\`
-,  roots@calculatedFrom(
-""" ++ [128512]%N ++ runes_of_ascii """	) `{ , }`
-,  @calculatedFrom(	""a\""b""	)
-_x _x `
-` , //x
-i8 pack
-    , @lengthOf(  string_ )
-match charz
-as
-repeatCount
-{[
-0123456789 ]
-    : x// a // b
-,255:
-    Foo, [ 0123456789 , ""1"" ] : f32a """" :
-    // " ++ [128512]%N ++ runes_of_ascii " emoji
-    len
-,	[0 ,
-0123456789 ,""a\\"" ,65535]
-    : int ,[""packet"" , ""1"" ,65535 ,  ""a\""b""
-    ,	4294967296
-, ""x y""
-    , ""// no comment"" ]
-: calculatedFrom , // trailing space 
-},
-@calculatedFrom( // " ++ [27880; 37322]%N ++ runes_of_ascii "
-""" ++ [28040; 24687]%N ++ runes_of_ascii """
-)Pad int  `tab	here`,
-} packet // c
-As
-{
+`` //
+, char[42 ] MetaDataX
+// `tick` ""quote"" 'q'
+// c
+@calculatedFrom( ""CRC32"" ) , zchar[ 255 ]
+    //
+    roots	@lengthOf(
     options1
-,  @lengthOf( int // a // b
-)int8
-options1 @lengthOf( u8x)
-`crlf
-line`, } packet falsey { @rightPad ( ) char[ 3] o
-    , }root
-packet
-    // @lengthOf(
-    _x {@tag( 42
-) trueish
-    @calculatedFrom(
-""" ++ [128512]%N ++ runes_of_ascii """ )
-`
-` , f32a `crlf
-line` , match
-rootA as stringy  { // trailing space 
-[ ""packet""
-    ,
-//
-// " ++ [27880; 37322]%N ++ runes_of_ascii "
-"""" ]:
-    uint8x ,  ""\" ++ [233]%N ++ runes_of_ascii """
-: uint8x , [""\n"" ,1 ]
-    : zchar // packet A { u8 x, }
-, 255:
-// `tick` ""quote"" 'q'
-//
-int ,[ ""packet""]: roots }
-, repeat u16 // c
-x_y_z// a // b
-`// not a comment` , }")).
-Eval vm_compute in ("<<<M1392>>>" ++ check (runes_of_ascii "options {
-    StringPrefixLenType = u16;
-    ArrayPrefixLenType = u16;
-}
-
-packet SampleBinary {
-    uint16 MsgType `" ++ [28040; 24687; 31867; 22411]%N ++ runes_of_ascii "`,
-    u16 BodyLenght @lengthOf(Body) `" ++ [28040; 24687; 20307; 38271; 24230]%N ++ runes_of_ascii "`,
-    match MsgType as Body {
-        1 : Logon,
-        2 : Logout,
-        3 : Heartbeat,
-        4 : RiskControlRequest,
-        5 : RiskControlResponse,
-    },
-    @calculatedFrom(""CRC32"")
-    u32 Ckecksum `" ++ [26657; 39564; 21644]%N ++ runes_of_ascii "`,
-}
-
-packet Logon {
-    @leftPad('0')
-    char[10] UserName `" ++ [29992; 25143; 21517]%N ++ runes_of_ascii "`,
-    string Password `" ++ [23494; 30721]%N ++ runes_of_ascii "`,
-    uint64 ClientId `" ++ [23458; 25143; 31471]%N ++ runes_of_ascii "ID`,
-    u16 HeartbeatInterval `" ++ [24515; 36339; 38388; 38548]%N ++ runes_of_ascii "`,
-}
-
-packet Logout {
-    @rightPad('0')
-    char[10] UserName `" ++ [29992; 25143; 21517]%N ++ runes_of_ascii "`,
-    uint64 ClientId `" ++ [23458; 25143; 31471]%N ++ runes_of_ascii "ID`,
-}
-
-packet Heartbeat {
-}
-
-packet RiskControlRequest {
-    string UniqueOrderId `" ++ [21807; 19968; 35746; 21333; 21495]%N ++ runes_of_ascii "`,
-    char[16] ClOrdID `" ++ [23458; 25143; 35746; 21333; 21495]%N ++ runes_of_ascii "`,
-    char[3] MarketID `" ++ [24066; 22330]%N ++ runes_of_ascii "id`,
-    char[12] SecurityID `" ++ [35777; 21048; 20195; 30721]%N ++ runes_of_ascii "`,
-    char Side `" ++ [20080; 21334; 26041; 21521]%N ++ runes_of_ascii "`,
-    char OrderType `" ++ [35746; 21333; 31867; 22411]%N ++ runes_of_ascii "`,
-    u64 Price `" ++ [20215; 26684]%N ++ runes_of_ascii "`,
-    u32 Qty `" ++ [25968; 37327]%N ++ runes_of_ascii "`,
-    repeat string ExtraInfo `" ++ [38468; 21152; 20449; 24687]%N ++ runes_of_ascii "`,
-    repeat SubOrder {
-        char[16] ClOrdID `" ++ [23376; 35746; 21333; 21495]%N ++ runes_of_ascii "`,
-        u64 Price `" ++ [23376; 35746; 21333; 20215; 26684]%N ++ runes_of_ascii "`,
-        u32 Qty `" ++ [23376; 35746; 21333; 25968; 37327]%N ++ runes_of_ascii "`,
-    },
-}
-
-packet RiskControlResponse {
-    string UniqueOrderId `" ++ [21807; 19968; 35746; 21333; 21495]%N ++ runes_of_ascii "`,
-    i32 Status `" ++ [29366; 24577]%N ++ runes_of_ascii "`,
-    string Msg `" ++ [32467; 26524; 20449; 24687]%N ++ runes_of_ascii "`,
-    repeat Detail,
-}
-
-packet Detail {
-    string RuleName `" ++ [35268; 21017; 21517; 31216]%N ++ runes_of_ascii "`,
-    u16 Code `" ++ [21407; 22240; 20195; 30721]%N ++ runes_of_ascii "`,
-}")).
-Eval vm_compute in ("<<<M1387>>>" ++ check (runes_of_ascii "options{ falsey =
-float64 ;
-u8x
-=' ' ; charz = '0' ; // a // b
-} options/// triple
-{ i8i8 = true ;	uint8x = false ; roots
-//	t
-// " ++ [27880; 37322]%N ++ runes_of_ascii "
-=
-// @lengthOf(
-// c
-42 ; MetaDataX= ""a\\""
-} packet tag { lengthOf//
-, @lengthOf(
-    // a // b
-    u8x)
-    match// " ++ [27880; 37322]%N ++ runes_of_ascii "
-metadata as packetx { ""// no comment""
-:
-    // `tick` ""quote"" 'q'
-    tag // " ++ [128512]%N ++ runes_of_ascii " emoji
-,65535
-: MetaDataX
-    // " ++ [128512]%N ++ runes_of_ascii " emoji
-    ,	} ,@rightPad(' '
-)  char[ 007 // c
-] // " ++ [128512]%N ++ runes_of_ascii " emoji
-len, @calculatedFrom(
-    ""a	b""
-) repeat//x
-uint8x u8x `a\`
-, repeat
-uint8x	{ match  MetaDataX as zchar  { 65535 : int
-, 1
-    :
-    matchKey  , [ 0123456789]
-:pack, 7: Z9_ , 0123456789
-:	rootA/// triple
-[ 00
-    ,""\n"" ] :leftPad , }  , u128  { // a // b
-uint64 i8i8 // packet A { u8 x, }
-, i32 tag	, uint8 body	,}  , zchar[255 ] rootA	, } // trailing space 
-, // trailing space 
-string roots , @calculatedFrom(
-""CRC32"" ) @tag( 7 ) string_	@calculatedFrom(  ""abc"" )
-, zchar[ 10 ] int `say ""hi""` , @lengthOf(  metadata )	char[ 0 ] roots @calculatedFrom( """" ) // `tick` ""quote"" 'q'
-, @calculatedFrom(""x y""//x
-) rootA `" ++ [28040; 24687; 31867; 22411]%N ++ runes_of_ascii "` , }
-root packet // " ++ [128512]%N ++ runes_of_ascii " emoji
-i64_ {@tag( 00 )
-repeat x i64_ , } options { Header
-    =00 float =	false
-    ;}
-")).
-Eval vm_compute in ("<<<M1394>>>" ++ check (runes_of_ascii "options {
-	StringPrefixLenType = u16;
-	ArrayPrefixLenType = u16;
-}
-
-packet SampleBinary {
-	uint16 MsgType `" ++ [28040; 24687; 31867; 22411]%N ++ runes_of_ascii "`,
-	u16 BodyLenght @lengthOf(Body) `" ++ [28040; 24687; 20307; 38271; 24230]%N ++ runes_of_ascii "`,
-	match MsgType as Body {
-		1 : Logon,
-		2 : Logout,
-		3 : Heartbeat,
-		4 : RiskControlRequest,
-		5 : RiskControlResponse,
-	},
-	@calculatedFrom(""CRC32"")
-	u32 Ckecksum `" ++ [26657; 39564; 21644]%N ++ runes_of_ascii "`,
-}
-
-packet Logon {
-	@leftPad('0')
-	char[10] UserName `" ++ [29992; 25143; 21517]%N ++ runes_of_ascii "`,
-	string Password `" ++ [23494; 30721]%N ++ runes_of_ascii "`,
-	uint64 ClientId `" ++ [23458; 25143; 31471]%N ++ runes_of_ascii "ID`,
-	u16 HeartbeatInterval `" ++ [24515; 36339; 38388; 38548]%N ++ runes_of_ascii "`,
-}
-
-packet Logout {
-	@rightPad('0')
-	char[10] UserName `" ++ [29992; 25143; 21517]%N ++ runes_of_ascii "`,
-	uint64 ClientId `" ++ [23458; 25143; 31471]%N ++ runes_of_ascii "ID`,
-}
-
-packet Heartbeat {
-}
-
-packet RiskControlRequest {
-	string UniqueOrderId `" ++ [21807; 19968; 35746; 21333; 21495]%N ++ runes_of_ascii "`,
-	char[16] ClOrdID `" ++ [23458; 25143; 35746; 21333; 21495]%N ++ runes_of_ascii "`,
-	char[3] MarketID `" ++ [24066; 22330]%N ++ runes_of_ascii "id`,
-	char[12] SecurityID `" ++ [35777; 21048; 20195; 30721]%N ++ runes_of_ascii "`,
-	char Side `" ++ [20080; 21334; 26041; 21521]%N ++ runes_of_ascii "`,
-	char OrderType `" ++ [35746; 21333; 31867; 22411]%N ++ runes_of_ascii "`,
-	u64 Price `" ++ [20215; 26684]%N ++ runes_of_ascii "`,
-	u32 Qty `" ++ [25968; 37327]%N ++ runes_of_ascii "`,
-	repeat string ExtraInfo `" ++ [38468; 21152; 20449; 24687]%N ++ runes_of_ascii "`,
-	repeat SubOrder {
-		char[16] ClOrdID `" ++ [23376; 35746; 21333; 21495]%N ++ runes_of_ascii "`,
-		u64 Price `" ++ [23376; 35746; 21333; 20215; 26684]%N ++ runes_of_ascii "`,
-		u32 Qty `" ++ [23376; 35746; 21333; 25968; 37327]%N ++ runes_of_ascii "`,
-	},
-}
-
-packet RiskControlResponse {
-	string UniqueOrderId `" ++ [21807; 19968; 35746; 21333; 21495]%N ++ runes_of_ascii "`,
-	i32 Status `" ++ [29366; 24577]%N ++ runes_of_ascii "`,
-	string Msg `" ++ [32467; 26524; 20449; 24687]%N ++ runes_of_ascii "`,
-	repeat Detail,
-}
-
-packet Detail {
-	string RuleName `" ++ [35268; 21017; 21517; 31216]%N ++ runes_of_ascii "`,
-	u16 Code `" ++ [21407; 22240; 20195; 30721]%N ++ runes_of_ascii "`,
-}")).
-Eval vm_compute in ("<<<M494>>>" ++ check (runes_of_ascii "packet leftPad //x
-{uint16 x , lengthOf // a // b
-chars `// not a comment` , @calculatedFrom( ""a\\"") repeat
-char[] As`{ , }`
-, metadata
-@calculatedFrom(
-    ""// no comment"" ),
-uint32 f32a`
-`
-, @tag( // @lengthOf(
-255) repeat trueish `doc` ,
-char[] trueish
-@lengthOf(
-len )
-,int16
-i64_ ,
-@calculatedFrom( ""\n""
-)
-i8i8 `" ++ [28040; 24687; 31867; 22411]%N ++ runes_of_ascii "`  ,
-    } root
-    packet crc { repeat uint8x	packetx, match
-u8x as T {
-0
-: crc,1  : T ,
-    [ ""a\\""// c
-, 0123456789 , 00 ] : chars ,	7 :
-T //	t
-,	}// a // b
-,
-roots  @lengthOf(	lengthOf
-    ) `two words`
-    , match
-rootA as A{
-10
-    : x ,
-    }, crc @calculatedFrom( ""a	b""
-    )
-    , chars {
-match lengthOf as Header
-{4294967296 :// c
-zchar
-, [4294967296 ,
-""a\\""
-    ]: asx ,}
-,_x  @calculatedFrom(
-    ""\" ++ [233]%N ++ runes_of_ascii """)`tab	here` // a // b
-, },} //
-MetaData asx { zchar[
-    42	] uint8x
-// `tick` ""quote"" 'q'
-// `tick` ""quote"" 'q'
-, uint8
-    Logon //x
-`// not a comment` , } MetaData
-    o
-//	t
-//x
-{ u16 // " ++ [27880; 37322]%N ++ runes_of_ascii "
-_x , x_y_z float `crlf
-line`,BodyLength calculatedFrom
-    `tab	here` ,
-    uint16
-MetaDataX , }
-")).
-Eval vm_compute in ("<<<M696>>>" ++ check (runes_of_ascii "// " ++ [128512]%N ++ runes_of_ascii " emoji
-MetaData rootA{ metadata i64_
-    // @lengthOf(
-    , }
-    packet msg_type {
-    char[
-    255 ] tag
-, } options
-{  As	= ' ' ; Z9_=
-// a // b
-// c
-int16 ;  crc
-=""\" ++ [233]%N ++ runes_of_ascii """;float = f64 ;} //x
-options
-{ BodyLength = 00 }
-    packet
-    As
-    /// triple
-    { @tag(
-007
-)Z9_
-{
-repeat char[ 0 ] stringy , A
-    @lengthOf( f32a )  , } ,
-Pad x_y_z ,
-/// triple
-// @lengthOf(
-body
-`` , @tag( 65535)	char[ 0123456789 ]
-MetaDataX  @calculatedFrom(""`tick`"" ) ,pack
-falsey , zchar[
-0
-    ]MetaDataX ,	i16
-repeatCount ,
-repeat tag
-    stringy`doc` ,@lengthOf(
-Z9_)
-@leftPad (
-)	@leftPad
-(
+    ) `two words` , msg_type @calculatedFrom(
     //x
-    '\x00') repeat _x { repeat
-a1
-    {
-match
-u as chars {
-    // packet A { u8 x, }
-    [
-    0123456789	,
-    4294967296//
-, ""it's"" ,//x
-1 ,	""\" ++ [233]%N ++ runes_of_ascii """]: Z9_ 4294967296 // trailing space 
-:
-    rootA ""abc"" : stringy }, } ,
-    /// triple
-    repeat string chars
-    // trailing space 
-    `" ++ [233]%N ++ runes_of_ascii "` ,
-int8
-    // " ++ [128512]%N ++ runes_of_ascii " emoji
-    u8x @lengthOf( x_y_z )
-, // @lengthOf(
-} ,
-uint64 body
-@lengthOf(roots),}
-")).
-Eval vm_compute in ("<<<M196>>>" ++ check (runes_of_ascii "/// triple
-MetaData roots
-    { string
-Z9_ `say ""hi""`
-    //
-    ,o
-    tag ,char[4294967296 // " ++ [128512]%N ++ runes_of_ascii " emoji
-] body `crlf
-line`
+    ""\n""  ) ,
+    u len , } packet x {
+} packet falsey
+{  @calculatedFrom(
+""a	b""
+)
+    int64 falsey
+    `{ , }`,
+    repeat f64 crc// trailing space 
 ,
-    _x lengthOf `tab	here` , } options { repeatCount	= ""x y"" ; T = """ ++ [28040; 24687]%N ++ runes_of_ascii """ }
-    /// triple
-    packet int{ @calculatedFrom( ""CRC32"" )int64 f32a, roots @calculatedFrom( ""it's"" )`` ,@calculatedFrom(""a\\"" )@tag( 007 ) char[ 255//	t
-] crc @lengthOf(packetx )
-    ,
-match
-    Pad as string_ { [""\" ++ [233]%N ++ runes_of_ascii """,3
-    // " ++ [27880; 37322]%N ++ runes_of_ascii "
-    ] : lengthOf  ,[ 42
-    ]:
-// packet A { u8 x, }
-// packet A { u8 x, }
-body ,
-7 : i8i8
-    ,0123456789:
-options1
-,//x
-[ 00 ] : Z9_ ,  }// @lengthOf(
-,float
-,// " ++ [27880; 37322]%N ++ runes_of_ascii "
-} MetaData zchar
-    {
-    zchar[
-3 ]
-    options1
-    `line1
-line2` ,}  packet asx
-{ zchar[
-    42// " ++ [128512]%N ++ runes_of_ascii " emoji
-]
-falsey ,	@calculatedFrom(
-""1""
-)
-repeat string As `" ++ [233]%N ++ runes_of_ascii "`, char[] trueish
-    , int32 Header , repeat  stringy
-`crlf
-line`, string
-x_y_z,
-f64 T
-//x
-// `tick` ""quote"" 'q'
-, uint8x
-@lengthOf( charz
-)
-    `a\` , }")).
-Eval vm_compute in ("<<<M3640>>>" ++ check (runes_of_ascii "options {
-    LittleEndian = false;
-    FixedStringPadFromLeft = false;
-    FixedStringPadChar = ' ';
-}
-packet Fill {
-    uint16 Qty,
-    uint64 clOrdID,
-    repeat i64 Flags,
-}
-packet Ack {
-    zchar[7] clOrdID,
-    u64 lastPx,
-    char[] Note,
-    repeat Fill,
-    int32 count,
-}
-packet Quote {
-    u8 venue,
-    InRef40 {
-        char[] Qty,
-    },
-    zchar[5] Flags,
-    @rightPad('\x00') char[12] msgKind,
-}
-packet Logout {
-    InSym79 {
-        int32 Qty,
-        Fill,
-        char[3] x,
-        repeat InNote29 {
-            i16 price,
-            Ack,
-            f64 x,
-            zchar[8] count,
-        },
-    },
-}
-root packet Logon {
-    zchar[1] sym,
-    u32 count,
-    u16 tag7 @lengthOf(Body),
-    match count as Body {
-        [122, 152] : Ack,
-        118 : Logout,
-        61 : Quote,
-        161 : Fill,
-    },
-    u32 Acct @calculatedFrom(""CRC32""),
-}
-")).
-Eval vm_compute in ("<<<M4547>>>" ++ check (runes_of_ascii "MetaData A {
-    u8x A ``,
-    int16 roots `// not a comment`,
-    u128 u,
-    int options1 `" ++ [28040; 24687; 31867; 22411]%N ++ runes_of_ascii "`,
-    i16 repeatCount,
-    i8 roots,
-}
-
-root packet matchKey {
-    lengthOf {
-        i64_ @lengthOf(msg_type),
-    },
-}
-
-options {
-    x = char[]
-}// trailing space 
-
-packet As {
-    i64_ `crlf
-    line`,// c
-    rootA Z9_,
-    string Pad @calculatedFrom(""// no comment"") `say ""hi""`,
-    @rightPad('\x00')
-    @calculatedFrom(""{,}"")
-    @calculatedFrom(""CRC32"")
-    falsey `doc`,
-    match Logon as tag {
-        3 : f32a,
-        ""abc"" : o,
-        255 : A,
-        ""abc"" : leftPad,
-    },
-    @calculatedFrom(""" ++ [233]%N ++ runes_of_ascii "t" ++ [233]%N ++ runes_of_ascii """)
-    repeat u32 _x `{ , }`,
-    repeat stringy `a\`,
+    @tag(	255) uint32 // a // b
+chars `" ++ [28040; 24687; 31867; 22411]%N ++ runes_of_ascii "` , @leftPad ( '\x00'	)@lengthOf( falsey )
+@calculatedFrom(	""a	b"" )  stringy { zchar[ // " ++ [27880; 37322]%N ++ runes_of_ascii "
+7	] Pad `line1
+line2` , string
+    pack,
     // @lengthOf(
-    // " ++ [128512]%N ++ runes_of_ascii " emoji
-    len @lengthOf(Header) `" ++ [28040; 24687; 31867; 22411]%N ++ runes_of_ascii "`,
-    i32 len @lengthOf(repeatCount) `line1
-    line2`,
-    @tag(42)
-    BodyLength,
-}")).
-Eval vm_compute in ("<<<M1346>>>" ++ check (runes_of_ascii "packet	i64_
-    // `tick` ""quote"" 'q'
-    { @lengthOf(  charz )  zchar[
-00  ]charz	`
-`	,@rightPad ( '0')
-@calculatedFrom(  ""`tick`"" ) i16 charz , repeat Pad { uint8x
-MetaDataX , int { repeat // packet A { u8 x, }
-uint64 u8x ,// packet A { u8 x, }
-repeat
-    // `tick` ""quote"" 'q'
-    uint8x
-    { // a // b
-repeat Z9_
-x_y_z ,
-    match
-    x_y_z
-// a // b
-// a // b
-as _x {
-    007 :crc	,
-[ 00 ,  0
-, 1 , 007 ,
-4294967296 ]:
-    u128
-,  }
-, char[
-    42
-//	t
-//
-] float,}, } , char[]x
-    ,repeat
-zchar  {
-match
-Logon  as rootA {	0
+    float64 string_ ,	},	repeat rootA{	match Logon as
+    /// triple
+    o // " ++ [27880; 37322]%N ++ runes_of_ascii "
+{ 007 //x
+:leftPad
+    , 0	: T , ""CRC32"" :
+T
+[ ""a	b"" ]: Logon , } ,
+    match // @lengthOf(
+x_y_z as
+_x
+{ 10
 :
-    chars , [ 42
-] :repeatCount
-    // c
-    ,
-""" ++ [233]%N ++ runes_of_ascii "t" ++ [233]%N ++ runes_of_ascii """
-:	BodyLength, ""x y"" : Z9_
-, [4294967296	, 42 ,
-3 , 255 , 00 ,
-    ""x y"" , 10
-    , 42 ]
-    : falsey , }, },
-}  , }// a // b
-packet	options1// " ++ [128512]%N ++ runes_of_ascii " emoji
-{ // c
-len @lengthOf(T
-), }")).
-Eval vm_compute in ("<<<M4238>>>" ++ check (runes_of_ascii "MetaData i8i8 {
-    u8 string_ `crlf
-    line`,
-}
-
-root packet MetaDataX {
-    @rightPad(' ')
-    char[] MetaDataX @lengthOf(packetx),//	t
-}
-
-packet packetx {
-    @lengthOf(uint8x)
-    //
-    trueish `doc`,
-    @calculatedFrom(""a\""b"")
-    @rightPad(' ')
-    @calculatedFrom(""a\\"")
-    repeat zchar[7] asx,
-    @tag(1)
-    char[3] string_,
-    string_ @lengthOf(Logon),
-    @rightPad('\x00')
-    @leftPad('0')
-    repeat As {
-        trueish {
-            leftPad {
-                i64 crc,
-                u8 zchar @lengthOf(f32a),
-                tag @lengthOf(Z9_) `// not a comment`,
-                Z9_ _x,
-            },// packet A { u8 x, }
-            char[00] Foo `a\`,
-        },
-    },
-    @tag(7)
-    char[4294967296] u128,
-}")).
-Eval vm_compute in ("<<<M734>>>" ++ check (runes_of_ascii "options {
-    } packet x {	MetaDataX @lengthOf( _x // @lengthOf(
-),
-    // " ++ [128512]%N ++ runes_of_ascii " emoji
-    }
-root
-    packet metadata{ string float``
-,char[ 65535 ]  T `it's`, @lengthOf( msg_type) @tag(42 )
-match Header as
-    chars  { [
-10,
-    7
-]:
-a1 ,
-    [//x
-""1""
+metadata , """ ++ [233]%N ++ runes_of_ascii "t" ++ [233]%N ++ runes_of_ascii """
+    : string_,  } ,} ,
 // c
-//
-] : u128 4294967296
-    : options1 , } , // trailing space 
-int	@calculatedFrom( ""`tick`""
-    ) ,
-    MetaDataX
+/// triple
+o{ options1
+    @calculatedFrom("""" ) ,	repeat i32
+body, } , @tag(1 /// triple
+) match packetx// " ++ [27880; 37322]%N ++ runes_of_ascii "
+as rootA
+{
+""" ++ [128512]%N ++ runes_of_ascii """:
 // `tick` ""quote"" 'q'
-// c
-packetx , zchar[ 10] o, @tag( 007)
-    u128 Pad , @calculatedFrom( ""{,}""
-    //	t
-    )
-    // `tick` ""quote"" 'q'
-    match options1 as BodyLength{ [00	, 255 , ""x y""
-]	:
-A ""a\\"" :T ,[ 7	,
-    42 ,65535, ""a\""b""
-, 7
-    , 007 , //	t
-""`tick`""  , 0 ]: matchKey ""CRC32""
+//x
+zchar  ,
+    7 :
+    zchar  ,
+[ 0 , 42,
+""a\\"" , 0123456789	, ""it's""
+,3 //	t
+,
+""abc""	, 0123456789	]: lengthOf,
+// " ++ [27880; 37322]%N ++ runes_of_ascii "
+//x
+0
+// trailing space 
+// " ++ [27880; 37322]%N ++ runes_of_ascii "
+: _x, ""1"":
+    Header , }
+    , @rightPad
     // c
-    :	falsey ,
+    ( ) repeat pack {
+match MetaDataX
+    as o { ""a\""b"" : Pad
+[ ""a\""b"" ]:A , 1
+: rootA  , }
+    , match	calculatedFrom as T/// triple
+{ 65535  : stringy , // " ++ [27880; 37322]%N ++ runes_of_ascii "
+65535 :  Packet ,
+    [
+007 , ""CRC32""
+    , 00 , 3 ,
+    65535
+,	""x y"" ,65535 ]: matchKey/// triple
+, 007
+: rootA
+,// @lengthOf(
+}, },char[] u128
+,// a // b
+}")).
+Eval vm_compute in ("<<<M1161>>>" ++ check (runes_of_ascii "
+root  packet MetaDataX	{int32
+Logon,
+}packet
+    roots { match
+calculatedFrom as i8i8 { [	""// no comment""	,""\" ++ [233]%N ++ runes_of_ascii """, // c
+10 , ""\n"" , ""{,}"" , //	t
+65535
+, ""x y"" ] : // " ++ [128512]%N ++ runes_of_ascii " emoji
+As , 10 :
+    o ,
+""\" ++ [233]%N ++ runes_of_ascii """
+: MetaDataX
+} , @leftPad ( '\x00' )
+@lengthOf(
+a1 )
+    // `tick` ""quote"" 'q'
+    @calculatedFrom(""a\\"" ) uint16 float @calculatedFrom( ""`tick`"") //	t
+,string BodyLength
+    @calculatedFrom(""x y""
+) ,calculatedFrom stringy // packet A { u8 x, }
+,
+@lengthOf( a1 )
+    @tag(	65535)char[]
+falsey `// not a comment`
+, @calculatedFrom( """ ++ [233]%N ++ runes_of_ascii "t" ++ [233]%N ++ runes_of_ascii """
+    )char[ 255 ]/// triple
+msg_type ,
+o , @rightPad ( '0' ) // trailing space 
+repeat rootA { x {  repeat u8 Z9_
+    `
+` ,	char[255 ] // " ++ [128512]%N ++ runes_of_ascii " emoji
+leftPad , int32 len`line1
+line2`
+    , } ,// `tick` ""quote"" 'q'
+repeat uint8x
+{ char[] rootA @lengthOf(Z9_ ), match  zchar as x_y_z {	0
+: Z9_	, [
+007
+, 007
+    , 1 ,007,""""
+    , ""1"" ]
+    :
+packetx
+    ,	[""1"" , """"
+]
+: len , """" :BodyLength ,
+    [ ""// no comment""
+    ,
+    //	t
+    """ ++ [128512]%N ++ runes_of_ascii """ ,	""`tick`"" ] :
+chars ,
+10: T } , },
+    // " ++ [27880; 37322]%N ++ runes_of_ascii "
+    a1 @lengthOf( body
+) ,  }
+    //x
+    , }MetaData// c
+crc {  }
+    options{ rootA =
+'\x00' }
+packet lengthOf
+{ char[] float// " ++ [128512]%N ++ runes_of_ascii " emoji
+`" ++ [28040; 24687; 31867; 22411]%N ++ runes_of_ascii "` ,
+char[] falsey , repeatCount	`crlf
+line` ,// packet A { u8 x, }
+uint32 Foo
+@lengthOf( string_ ) `doc`, @calculatedFrom(// @lengthOf(
+""\n"" )
+    f64 Pad @lengthOf(
+    i8i8) ,
+@lengthOf(
+i8i8) x_y_z // `tick` ""quote"" 'q'
+x
+    ,@calculatedFrom(
+    ""1""
+// packet A { u8 x, }
+// packet A { u8 x, }
+) pack
+{ float64 leftPad `crlf
+line`
+, repeat int {	match packetx
+as repeatCount {// " ++ [27880; 37322]%N ++ runes_of_ascii "
+[""a\""b"" ,
+    // c
+    42 ]  : repeatCount // a // b
+,
+    3 : // " ++ [128512]%N ++ runes_of_ascii " emoji
+leftPad ,
+    ""it's""
+:i8i8
+, ""packet"": x_y_z ""`tick`""
+:
+asx , 3
+    : Foo, } , i32 //	t
+options1 `" ++ [233]%N ++ runes_of_ascii "`
+    ,repeat int i64_
+    ,
+    }
+    ,
 } , }
 ")).
-Eval vm_compute in ("<<<M242>>>" ++ check (runes_of_ascii "packet
-    uint8x { @tag(	0123456789 // a // b
-) match u as
-As
-    {
-    ""1""
-    :	o ,4294967296 : charz [ ""CRC32""
-    ]	: A , 42: zchar, ""CRC32"" : leftPad //	t
-,
-    """ ++ [28040; 24687]%N ++ runes_of_ascii """// " ++ [128512]%N ++ runes_of_ascii " emoji
-: uint8x, } , }
-    options {
-u128 = uint32
-}
-    packet
-chars
-{
-    // a // b
-    float @lengthOf( _x ) // `tick` ""quote"" 'q'
-, string
-    chars@lengthOf(
-matchKey
-// @lengthOf(
-// packet A { u8 x, }
-) , match  crc as
-    Z9_ {0123456789 : int
-    ,""x y"" //
-:
-    rootA,	""`tick`""
-    : As,
-    // @lengthOf(
-    } ,@tag(7 )
-Pad @lengthOf( trueish  )`u8 x,`
-,}
-packet float
-{ repeat Packet{ lengthOf {
-    //
-    repeat f32a`it's`
-, } ,	o @lengthOf( calculatedFrom	)  , }
-,}
-
-")).
-Eval vm_compute in ("<<<M236>>>" ++ check (runes_of_ascii "MetaData As {  } packet float { // @lengthOf(
-options1  Pad `// not a comment` ,
-uint16 As `line1
-line2` ,float32 stringy@calculatedFrom(
-""`tick`""
-) `" ++ [233]%N ++ runes_of_ascii "` ,
-repeat Packet { zchar[ 3 ] T
-    @calculatedFrom(
-""x y""),  char[ 7 ]  asx @lengthOf( tag) ,
-    //
-    int64 charz `u8 x,`
-, } , uint32
-len , @tag(	0123456789
-) Foo packetx `// not a comment`,char[] trueish @lengthOf(
-rootA
-    ) , @leftPad (//
-'0'  ) repeat  x_y_z `{ , }` , i64 u128 ,
-    }
-    packet msg_type//x
-{
-char[]
-i8i8
-    `doc` //	t
-,string trueish @calculatedFrom(
-    """" ), char[ 7 ]/// triple
-string_// packet A { u8 x, }
-`say ""hi""`
-/// triple
-//
-,	}
-")).
-Eval vm_compute in ("<<<M4534>>>" ++ check (runes_of_ascii "packet matchKey {
-    match Header as chars {
-        [0, """ ++ [233]%N ++ runes_of_ascii "t" ++ [233]%N ++ runes_of_ascii """] : body,
-        [42, 10] : msg_type,
-        """ ++ [128512]%N ++ runes_of_ascii """ : options1,
-        7 : roots,
-        ""\n"" : packetx,
-    },
-    zchar[0] A @lengthOf(int),
-    char[] Header `
-        `,// trailing space 
-    repeat float {
-        repeat o,// `tick` ""quote"" 'q'
-        repeat int32 x_y_z `
-                `,
-    },
-    @tag(0)
-    u64 string_ @calculatedFrom(""`tick`"") `two words`,
-    calculatedFrom {
-        matchKey,// packet A { u8 x, }
-        rootA,
-    },
-}
-
-options {
-    chars = """";
-    As = true;
-    Foo = 7;
-    lengthOf = ""a\\""
-}")).
-Eval vm_compute in ("<<<M4135>>>" ++ check (runes_of_ascii "packet Packet {
-    @tag(65535)
-    @leftPad(' ')
-    @tag(255)
-    uint8 len @lengthOf(T),
-    int32 u8x,
-    @lengthOf(rootA)
-    float32 i64_ `u8 x,`,
-}
-
-packet int {
-    repeat i8i8 {
-        lengthOf @lengthOf(int) `line1
-                line2`,
-        string falsey `
-                `,
-        uint16 roots @lengthOf(charz),
-    },
-}
-
-options {
-    Foo = ' '
-    len = """ ++ [128512]%N ++ runes_of_ascii """;
-    chars = u64;
-    //x
-    //
-    uint8x = """ ++ [128512]%N ++ runes_of_ascii """;
-    metadata = ' ';
-}
-
-MetaData Header {
-    i16 matchKey,
-    Packet Packet `u8 x,`,
-}
-
-packet u128 {
-    uint8x @lengthOf(charz) `u8 x,`,
-}")).
-Eval vm_compute in ("<<<M4115>>>" ++ check (runes_of_ascii "
-
-  MetaData
-metadata{ } 
+Eval vm_compute in ("<<<M4169>>>" ++ check (runes_of_ascii "
 packet
+    body
 
-u  // a // b
-      {//
-  @lengthOf(
-    T  ) 	 // packet A { u8 x, }
-@lengthOf( u
-    ) 	 /// triple
-    @leftPad ( '0' 
+    {@tag(
+
+00	) 
+options1
+	@calculatedFrom(""1"")
+
+,
+    @calculatedFrom(
+
+    // " ++ [27880; 37322]%N ++ runes_of_ascii "
+	// packet A { u8 x, }
+  ""abc""  )uint8x
+{ o
 
 //	t
-	// " ++ [27880; 37322]%N ++ runes_of_ascii "
-    )
-
-repeat
-uint8 x_y_z
-
-`" ++ [28040; 24687; 31867; 22411]%N ++ runes_of_ascii "`
-    ,
-}	root packet
-A { @tag( 
-
-// a // b
-10)repeat
-
-    zchar[
-0 ]
-	asx	`doc` ,
-
-    char[	// @lengthOf(
-    7
-
-]float  //x
-	@lengthOf(BodyLength)
-    `crlf
-line`,
-    zchar[
-    0123456789]
-
-    u128 ,
-
-@rightPad  (	)repeat
-zchar[	255
-
-] Packet
-	`` ,
-
-BodyLength
-	Pad ,	@tag( 1	)
-zchar[
-10  ]float @lengthOf(
-
-roots ) 
-, 
-}
-")).
-Eval vm_compute in ("<<<M849>>>" ++ check (runes_of_ascii "options {float = ' ' Foo =
-""a	b"" A = // packet A { u8 x, }
-i16
-    ; string_ =""it's""} // c
-MetaData float{ charz falsey // " ++ [27880; 37322]%N ++ runes_of_ascii "
-, char[]chars
-, float32
-    Pad , }MetaData repeatCount
-    {
-    char[	65535] // `tick` ""quote"" 'q'
-Header `" ++ [233]%N ++ runes_of_ascii "` // trailing space 
-,
-    float32 Pad
-, u64 len
-    ,
-    // `tick` ""quote"" 'q'
-    lengthOf a1 `{ , }`
-    //	t
-    ,
-    //x
-    }
-options
-    {  leftPad = zchar[ 00] ; charz
-= 10
-    ;options1
-    =
-    // trailing space 
-    string len =zchar[255 ] ; Logon = ""\n""
-    ; }
-")).
-Eval vm_compute in ("<<<M334>>>" ++ check (runes_of_ascii "
-packet a1
-    /// triple
-    { uint8 As ,// `tick` ""quote"" 'q'
-char[ 1] chars
-    @lengthOf(
-    msg_type )  , repeat char[ 1 ] x_y_z `two words`
-    //x
-    , // c
-@tag(00
-)
-int32
-i8i8
-    , u64 trueish ,
-    // @lengthOf(
-    @lengthOf(
-    body )int16 float @lengthOf( tag )
-    , // " ++ [128512]%N ++ runes_of_ascii " emoji
-x // trailing space 
-@calculatedFrom( ""`tick`""	) ,
-} MetaData x_y_z
-    {	char[
-10
-    ]chars,Z9_ pack`
-`  ,  string As
-, //x
-len
-    int ,A Z9_  , }	options { o = 0123456789 ; _x	= ' '
-;
-}")).
-Eval vm_compute in ("<<<M152>>>" ++ check (runes_of_ascii "
-options{	roots ='\x00' lengthOf
-=
-    true
-; Packet = // `tick` ""quote"" 'q'
-""packet"" ; o = // packet A { u8 x, }
-""packet"" ; A// " ++ [27880; 37322]%N ++ runes_of_ascii "
-=
-    //
-    true ; // trailing space 
-} packet body
-{ _x ,	zchar[
-65535
-]
-Header @calculatedFrom( // trailing space 
-""""  ) `u8 x,` , }
-root packet
-    //	t
-    T // trailing space 
-{ @tag(// trailing space 
-7) @tag( 0
-    )
-@leftPad( '0' )// a // b
-int64
-x @lengthOf( Packet )
-    , msg_type stringy
-`" ++ [28040; 24687; 31867; 22411]%N ++ runes_of_ascii "`/// triple
-, } /// triple")).
-Eval vm_compute in ("<<<M695>>>" ++ check (runes_of_ascii "// `tick` ""quote"" 'q'
-options{
-    Pad  =
-'0' } //
-packet
-    zchar{	stringy
-// " ++ [128512]%N ++ runes_of_ascii " emoji
-// " ++ [27880; 37322]%N ++ runes_of_ascii "
-{ match
-x as i64_	{00 : len,/// triple
-""`tick`""
-://x
-body
-, 3 : chars//
-, 7 : uint8x 0123456789:Foo
-,
-} , repeat
-chars i8i8
-,  float32// c
-Logon
-@lengthOf(A ) `tab	here` ,
-} ,} packet
-    //x
-    As  {
-    @lengthOf( i64_)
-    repeat
-    options1{ a1 @calculatedFrom( ""a\\""),
-    }
-    // packet A { u8 x, }
-    ,
-@calculatedFrom( ""CRC32"" ) matchKey ,}
-")).
-Eval vm_compute in ("<<<M349>>>" ++ check (runes_of_ascii "MetaData string_ {
-char[]
-Packet `
-`
-    , i8i8 A  ,
-string A
-`it's`
-,// trailing space 
-uint64 int
-, }
-// trailing space 
-// " ++ [27880; 37322]%N ++ runes_of_ascii "
-MetaData Z9_ { Header crc , // " ++ [27880; 37322]%N ++ runes_of_ascii "
-} MetaData T {// c
-float32 Z9_ `// not a comment`
-    , char[] /// triple
-uint8x`line1
-line2` ,
-Header u8x,
-char[ 3] a1	,
-    }MetaData Logon { a1 // " ++ [128512]%N ++ runes_of_ascii " emoji
-repeatCount `say ""hi""` , char[
-    42  ] Foo
-    ,
-    zchar[ 00
-    ] metadata
-,
-int16  zchar `it's` , }")).
-Eval vm_compute in ("<<<M902>>>" ++ check (runes_of_ascii "// c
-options
-{// " ++ [27880; 37322]%N ++ runes_of_ascii "
-MetaDataX = 0} root packet Z9_{char[]  packetx `doc`,BodyLength
-zchar
-,float32
-BodyLength , @calculatedFrom(
-""\" ++ [233]%N ++ runes_of_ascii """
-) match trueish  as// a // b
-T { 255
-: uint8x // @lengthOf(
-, // packet A { u8 x, }
-""" ++ [233]%N ++ runes_of_ascii "t" ++ [233]%N ++ runes_of_ascii """ :
-    charz
-,""a\\"" : falsey ""{,}"" : MetaDataX ,  }
-,// trailing space 
-}
-    options {} options {msg_type = 42 pack =
-true repeatCount
-=4294967296 ; leftPad =
-    ""it's"" // " ++ [27880; 37322]%N ++ runes_of_ascii "
-;
-    }")).
-Eval vm_compute in ("<<<M4247>>>" ++ check (runes_of_ascii "
-packet options1  {
-	repeat zchar[
-	7
-    ]	i8i8 
-,_x
-{	zchar[ 65535
-    ] i8i8@lengthOf(
-	uint8x
-
-),match x_y_z as
-
-lengthOf  {//x
-
-[	00  // " ++ [27880; 37322]%N ++ runes_of_ascii "
-
+  ,// c
+  u16 float `a\`
 ,
 
-1	// " ++ [27880; 37322]%N ++ runes_of_ascii "
-    ,10 ,
-    ""\" ++ [233]%N ++ runes_of_ascii """,	42,  00 ]	:	Pad
-,
-[  4294967296 ]
-	: 
-asx
-0123456789
-: x_y_z
-
-    ,
-}  // trailing space 
-  ,
-zchar[
-    0
-] float
-,
-} ,  int16
-    T@lengthOf(charz	)  `` , }
-
-    MetaData	pack	{
-
-int64  //	t
-chars
-
-,
-} ")).
-Eval vm_compute in ("<<<M424>>>" ++ check (runes_of_ascii "root	packet x { f64 trueish @calculatedFrom(""" ++ [28040; 24687]%N ++ runes_of_ascii """ )
-, @calculatedFrom(
-    ""a	b""
-)  zchar[ 00	]
-lengthOf , char[] roots
-`tab	here`	, @leftPad ( '\x00'
-    ) char[]
-body ,
-    // " ++ [27880; 37322]%N ++ runes_of_ascii "
-    Header {
-string
-    _x
-, i32 falsey ,repeat uint8 Packet , //	t
-float32 leftPad
-    @lengthOf( u )
-`a\` , },
-int32 // " ++ [27880; 37322]%N ++ runes_of_ascii "
-chars , @calculatedFrom(""\n"" ) repeat// c
-u32 roots
-    ,  o `` , }")).
-Eval vm_compute in ("<<<M4217>>>" ++ check (runes_of_ascii "
-
-  root
-	packet i8i8{
-    i8	crc  , 
-        // @lengthOf(
-
-	@rightPad ( 
-)
-	uint64	u128`two words` 
-
-    //
-	//	t
-	, //	t
-	uint64
-	_x
-	`{ , }`
-
-, 
-    // c
-  //x
-	  }
-
-    options {
-As
-= 
-""abc""
-
-leftPad 
-    // " ++ [128512]%N ++ runes_of_ascii " emoji
-  /// triple
-  = ""CRC32""	charz =char[
-65535  ]	//	t
-  	;
-x_y_z	// trailing space 
-		=true;
-}// @lengthOf(
-    	options	{  }
-
-")).
-Eval vm_compute in ("<<<M4130>>>" ++ check (runes_of_ascii "packet i8i8 {
-    match tag as i8i8 {
-        """ ++ [28040; 24687]%N ++ runes_of_ascii """ : pack,
-        3 : rootA,
-        [1, 3] : falsey,
     },
-    // " ++ [128512]%N ++ runes_of_ascii " emoji
+	@tag(1 )
+u  `u8 x,`
+	,
+crc {
+	zchar 
+{
+
+match	/// triple
+i8i8 as 	 // trailing space 
+int
+
+    {
+
+    ""`tick`""
+:
+	x_y_z,} 
+,
+	repeat
+    uint8 
+f32a ,
+	}
+,	// c
+
+	i8
+As
+@lengthOf(
+Foo )	`it's`
+,charz
+	@calculatedFrom(
+    ""it's""
+
+)  , 
+char[
+	4294967296 ] Packet
+`it's`
+
+    , }  ,  @lengthOf(
+
+    Z9_
+    )
+crc
+    {repeat
+options1{
+
+match 	 // `tick` ""quote"" 'q'
+	MetaDataX
+as
+	pack
+
+{  [
+    //	t
+		//
+""a\\""
+    ] :
+    i8i8  , 
+""a\\"":
+	falsey
+
+[ ""packet""  ]
+	: Logon
+
+    , [4294967296
+	,  ""abc""
+, ""{,}""
+    ,//x
+  3 ,""" ++ [128512]%N ++ runes_of_ascii """,  7,
+
+00 ,7 ]
+	:
+matchKey
+    ,0
+	:	trueish, } ,
+
+x_y_z repeatCount , repeat uint16
+
+    repeatCount  //
+  ,}
+,  options1
+, // " ++ [128512]%N ++ runes_of_ascii " emoji
+falsey {
+
+    char[]
+
+    u
+`u8 x,`	, }  , }
+
+    , 
+}
+root
+	packet	Pad { match 
+o	// trailing space 
+  as
+
+a1{[	"""" 
+,
+    ""packet""
+	    // c
+    	,
+    1
+    , 
+    //	t
+    0123456789  // trailing space 
+	  ]
+:
+charz ,  // trailing space 
+    ""a\""b"": 
+x_y_z , [
+
+    ""CRC32"",
+	007 , 255]	:	float 
+,
+    4294967296:  int 
+,
+    ""{,}""
+
+:
+
+stringy  , 4294967296: A	, } 
+,
+	@rightPad
+
+    ( )@tag( 7 //
+) match 	 // packet A { u8 x, }
+      uint8x
+as
+    crc{ 255
+
+    :
+    pack
+, },
+	repeat  int8  i8i8
+
+, }  packet 
+a1 {
+    string	As
+@calculatedFrom(	""a	b""  )
+, 
+}
+MetaData u  {
+	} 
+	    //x
+	root packet f32a
+    { }
+")).
+Eval vm_compute in ("<<<M1155>>>" ++ check (runes_of_ascii "packet u128 {
+// packet A { u8 x, }
+// c
+@rightPad (
+' ')uint8x { zchar {
+match u8x
+as
+Logon {007 // @lengthOf(
+: Packet
+    //x
+    , [ 255 ,
+//
+//x
+""`tick`"" ,00 , 42 ,
+""a\\""
+    ,	3 ] :
+// @lengthOf(
+// a // b
+int ,},  metadata `" ++ [28040; 24687; 31867; 22411]%N ++ runes_of_ascii "` ,
+repeat char[]Header
+    , a1, }
+, match // packet A { u8 x, }
+leftPad as rootA{
+0123456789 : int,0 : pack, }, tag { // " ++ [27880; 37322]%N ++ runes_of_ascii "
+string_ ,
+    pack calculatedFrom  , },// packet A { u8 x, }
+} ,
+    //x
+    zchar[
+255] msg_type , i32// c
+x, match options1 // @lengthOf(
+as
+    options1 {  10// @lengthOf(
+: //
+zchar,
+42 : pack ,
+[  ""a\\"" ] :
+    // @lengthOf(
+    As [42
+,
+    ""a\""b"" ] : asx
+, [
+    10 ] :a1 ,
+[
+    00]
+:
     // trailing space 
-    zchar[10] string_,// @lengthOf(
+    chars
+    // " ++ [27880; 37322]%N ++ runes_of_ascii "
+    , } ,
+// `tick` ""quote"" 'q'
+//	t
+char[0] Header @lengthOf(
+chars) // @lengthOf(
+`it's` ,
+//
+//	t
+match//	t
+x_y_z as
+    u8x {  65535 : Logon
+    ,""" ++ [233]%N ++ runes_of_ascii "t" ++ [233]%N ++ runes_of_ascii """ :
+Header ,
+    ""a	b"":
+metadata ,	[
+    255,
+""a\\""
+// a // b
+// c
+, ""a	b""
+, //x
+1 , ""{,}"" , """",255 , """ ++ [28040; 24687]%N ++ runes_of_ascii """ ]: f32a
+//	t
+// c
+, 3	:
+len // @lengthOf(
+}, @leftPad
+( ) @calculatedFrom( ""a\\"") int64 leftPad
+`" ++ [233]%N ++ runes_of_ascii "` , @calculatedFrom( ""packet"" )
+    @tag(
+10 )  @calculatedFrom(""a\\"" ) string Packet
+    @lengthOf( BodyLength ),//x
+@leftPad ( // @lengthOf(
+'0' )repeat
+char[]
+//	t
+// trailing space 
+Logon
+,
+@tag( 00
+) match
+u8x as Z9_ {
+[ 10 ] : lengthOf
+    0123456789 : _x, ""packet"" : i64_, } , }")).
+Eval vm_compute in ("<<<M4032>>>" ++ check (runes_of_ascii "packet lengthOf {
+    matchKey `doc`,
+    i8i8 {
+        match crc as zchar {
+            [1, ""abc"", 0, 0123456789, 65535] : chars,
+            ""\n"" : uint8x,
+            ""a\""b"" : int,
+            [
+                ""`tick`"", ""a	b"", ""a	b"", 4294967296, 4294967296,
+                """", ""a\""b""
+            ] : string_,
+            0123456789 : A,
+            ""packet"" : asx,
+        },
+        char[00] u8x `u8 x,`,
+        u8x {
+            uint32 float @calculatedFrom(""{,}""),
+            //	t
+            // " ++ [128512]%N ++ runes_of_ascii " emoji
+            char[0] zchar,
+        },
+        falsey @calculatedFrom(""" ++ [128512]%N ++ runes_of_ascii """),
+    },
+    @calculatedFrom(""1"")
+    zchar[255] metadata @lengthOf(packetx),
+    Header @calculatedFrom(""CRC32""),
+    // c
+    // trailing space 
+    float @lengthOf(crc) ``,
+    @tag(42)
+    @lengthOf(A)
+    @lengthOf(u128)
+    stringy `" ++ [233]%N ++ runes_of_ascii "`,
+    @leftPad('0')
+    char[4294967296] float,
+    u `" ++ [233]%N ++ runes_of_ascii "`,
+    @lengthOf(falsey)
+    // @lengthOf(
+    @lengthOf(lengthOf)
+    repeat f32 matchKey `line1
+        line2`,
+}
+
+options {
+    lengthOf = string;
 }
 
 packet falsey {
-    string chars,
-    uint8x,
-    @lengthOf(packetx)
-    char[] Packet,
-}
-
-MetaData a1 {
-    chars roots `crlf
-    line`,
-    asx zchar,
-}")).
-Eval vm_compute in ("<<<M4464>>>" ++ check (runes_of_ascii "MetaData u {
-    u128 tag `
-    `,
-    zchar[10] pack `say ""hi""`,
-    string metadata `doc`,
-}
-
-packet chars {
-    match crc as trueish {
-        // " ++ [27880; 37322]%N ++ runes_of_ascii "
-        10 : roots,
-        [
-            4294967296, 007, 42, """ ++ [28040; 24687]%N ++ runes_of_ascii """, """",
-            ""\n"", ""a\""b"", """"
-        ] : string_,
-        ""{,}"" : x_y_z,
-    },
-    i8i8 int,
-    asx,
-}")).
-Eval vm_compute in ("<<<M4415>>>" ++ check (runes_of_ascii "packet repeatCount {
-    uint64 stringy,
+    @tag(1)
+    int16 repeatCount @lengthOf(charz) `a\`,
+    repeat u64 MetaDataX `say ""hi""`,
 }
 
 options {
-    crc = '0'
-}//x
-
-packet int {
-    repeat a1 charz,
+    x = ""abc""
 }
 
-options {
-    matchKey = """ ++ [28040; 24687]%N ++ runes_of_ascii """;
-    crc = """ ++ [28040; 24687]%N ++ runes_of_ascii """;
-    roots = '\x00';
+MetaData BodyLength {
+    zchar[4294967296] zchar,
+}")).
+Eval vm_compute in ("<<<M4413>>>" ++ check (runes_of_ascii "options {
 }
 
-packet i8i8 {
+MetaData x_y_z {
+    string_ packetx,
+    metadata o,
+    char[3] charz,
+    zchar charz,
+}
+
+MetaData T {
+    zchar[3] len,
+    u x_y_z,
+    u64 A,
+}
+
+packet zchar {
+    @tag(4294967296)
+    @calculatedFrom(""" ++ [233]%N ++ runes_of_ascii "t" ++ [233]%N ++ runes_of_ascii """)
     @calculatedFrom(""abc"")
-    char[] _x `
-        `,/// triple
-    uint8 Packet `crlf
-        line`,
-    string_ `{ , }`,
-}")).
-Eval vm_compute in ("<<<M1868>>>" ++ check (runes_of_ascii "MetaData
-    u true }  options {
-// c
-// @lengthOf(
-float = int8 ;rootA =false ; As =	int16 // `tick` ""quote"" 'q'
-repeatCount
-    // trailing space 
-    =
-    int16
-; u8x =
-    //	t
-    '\x00' ; } options	{
-    repeatCount
-= 0
-u128
-    //
-    = false ; i64_
-// trailing space 
-// `tick` ""quote"" 'q'
-= '0' ; //	t
+    match tag as tag {
+        """" : stringy,
+        """ ++ [28040; 24687]%N ++ runes_of_ascii """ : f32a,
+        4294967296 : matchKey,
+        0 : msg_type,
+        7 : Logon,
+        7 : trueish,
+    },
+    roots @calculatedFrom(""" ++ [233]%N ++ runes_of_ascii "t" ++ [233]%N ++ runes_of_ascii """),
+    BodyLength `" ++ [233]%N ++ runes_of_ascii "`,
+    repeat int zchar `
+    `,
+    @leftPad()
+    body @calculatedFrom(""" ++ [233]%N ++ runes_of_ascii "t" ++ [233]%N ++ runes_of_ascii """),
 }
-")).
-Eval vm_compute in ("<<<M2051>>>" ++ check (runes_of_ascii "MetaData
-    u { }  options {
-// c
-// @lengthOf(
-float = int8 ;rootA =false ; As =	int16 // `tick` ""quote"" 'q'
-repeatCount
-    // trailing space 
-    =
-    int16
-; u8x =
-    //	t
-    '\x00' ; } options	{
-    repeatCount
-= 0
-u128
-    //
-    = false ; i64_
-// trailing space 
-// `tick` ""quote"" 'q'
-= '0' ; //	t
-} }
-")).
-Eval vm_compute in ("<<<M1887>>>" ++ check (runes_of_ascii "MetaData
-    u { }  options {
-// c
-// @lengthOf(
-= float int8 ;rootA =false ; As =	int16 // `tick` ""quote"" 'q'
-repeatCount
-    // trailing space 
-    =
-    int16
-; u8x =
-    //	t
-    '\x00' ; } options	{
-    repeatCount
-= 0
-u128
-    //
-    = false ; i64_
-// trailing space 
-// `tick` ""quote"" 'q'
-= '0' ; //	t
+
+packet Packet {
+    @lengthOf(uint8x)
+    // @lengthOf(
+    i64_ {
+        u128 {
+            stringy,
+        },
+    },
+    T MetaDataX `u8 x,`,
+    @calculatedFrom("""")
+    @lengthOf(x_y_z)
+    @calculatedFrom(""1"")
+    uint32 charz @calculatedFrom(""`tick`"") `" ++ [233]%N ++ runes_of_ascii "`,
+    // @lengthOf(
+    string u8x @calculatedFrom(""\" ++ [233]%N ++ runes_of_ascii """) `line1
+    line2`,
+    @leftPad()
+    string tag @lengthOf(f32a) `" ++ [233]%N ++ runes_of_ascii "`,
+    @rightPad()
+    @tag(7)
+    @lengthOf(rootA)
+    // " ++ [128512]%N ++ runes_of_ascii " emoji
+    repeat T matchKey,
+    @lengthOf(metadata)
+    zchar[10] _x @lengthOf(a1),
+    @leftPad()
+    f32a o `{ , }`,
 }
-")).
-Eval vm_compute in ("<<<M2037>>>" ++ check (runes_of_ascii "MetaData
-    u { }  options {
-// c
+// packet A { u8 x, }")).
+Eval vm_compute in ("<<<M4402>>>" ++ check (runes_of_ascii "
 // @lengthOf(
-float = int8 ;rootA =false ; As =	int16 // `tick` ""quote"" 'q'
-repeatCount
-    // trailing space 
-    =
-    int16
-; u8x =
-    //	t
-    '\x00' ; } options	{
-    repeatCount
-= 0
-u128
-    //
-    = false ; i64_
-// trailing space 
-// `tick` ""quote"" 'q'
-'0' = ; //	t
-}
-")).
-Eval vm_compute in ("<<<M1878>>>" ++ check (runes_of_ascii "MetaData
-    u { }  match {
-// c
-// @lengthOf(
-float = int8 ;rootA =false ; As =	int16 // `tick` ""quote"" 'q'
-repeatCount
-    // trailing space 
-    =
-    int16
-; u8x =
-    //	t
-    '\x00' ; } options	{
-    repeatCount
-= 0
-u128
-    //
-    = false ; i64_
-// trailing space 
-// `tick` ""quote"" 'q'
-= '0' ; //	t
-}
-")).
-Eval vm_compute in ("<<<M483>>>" ++ check (runes_of_ascii "MetaData  As { float32	calculatedFrom
-, BodyLength asx `two words`
-    , }
-options { f32a =
-' ' ; a1  = '\x00'} // trailing space 
-MetaData T {	charz metadata  , lengthOf T	`crlf
-line`	,
-    T
-    rootA
-`
-` , char[] repeatCount
-`it's` ,
-stringy
-rootA, // @lengthOf(
-zchar[ 0123456789 ] MetaDataX ,
-}
-")).
-Eval vm_compute in ("<<<M639>>>" ++ check (runes_of_ascii "
 packet
-calculatedFrom {@lengthOf( Foo	) //
-@calculatedFrom( ""a\""b""
-)lengthOf Foo
-, int8 u8x, @calculatedFrom( """ ++ [28040; 24687]%N ++ runes_of_ascii """ )
-repeat // a // b
-options1 o `" ++ [28040; 24687; 31867; 22411]%N ++ runes_of_ascii "` ,
-    MetaDataX @lengthOf( Logon
-    // trailing space 
-    )
-, } options { crc =
-7 u8x =0 T = ""{,}""; metadata =
-    zchar[ 00
-    ]
-;} 	 ")).
-Eval vm_compute in ("<<<M222>>>" ++ check (runes_of_ascii "options	{ // packet A { u8 x, }
-rootA
-= true
-    ; chars
-=	true // packet A { u8 x, }
-}options	{	lengthOf // @lengthOf(
-= 3
-trueish
-= ' '
-    ;
-    /// triple
-    crc
-// trailing space 
-// @lengthOf(
-=
-    // trailing space 
-    true  ;
-    rootA =""it's""; chars=
-    int32 ;//x
-}
-")).
-Eval vm_compute in ("<<<M4062>>>" ++ check (runes_of_ascii "  packet
+
 options1
-{@leftPad
-(
-	'0'
-)	repeat
-	char[
-1
-    ] 	 // " ++ [27880; 37322]%N ++ runes_of_ascii "
-  roots
 
-    `
-` ,
+{ @lengthOf(
 
-i32 
-A  `
-`  ,
-	repeat
-    char[
+i8i8  )i64_
 
-3]stringy// `tick` ""quote"" 'q'
+int  `{ , }` ,char[]	int 
+,  zchar[
 
-,
-repeat
-	f64	Z9_ 
-`tab	here`
-    ,
-}  packet T {
-    @tag(	00
-)
+    00
+//	t
+  // packet A { u8 x, }
+    ]  len
+	,	} packet
+	u128
+{ 
+@tag( 3 	 //	t
+  )
 
-    repeat	float
+@calculatedFrom( 
+//
+  // @lengthOf(
+	  ""// no comment""
 
-    `say ""hi""`,}/// triple
-")).
-Eval vm_compute in ("<<<M3606>>>" ++ check (runes_of_ascii "
-
-  packet P1 {
-	u8
-	a ,
-} packet
-	P2  {P1 ,  }packet
-    P3{ P2,
-
-P1 , }
-packet P4
-{  repeat
-
-P3,P2 ,
-    } root packet
-	P5 { P4,
-
-P3 
-, P1, 
-u8
-
-K
-
-,
-    match
-K
-
-    as
-
-    Body
+    ) 
+options1 	 // packet A { u8 x, }
 {
+int16 	 //x
 
-    4
+  calculatedFrom
+@calculatedFrom( """ ++ [28040; 24687]%N ++ runes_of_ascii """ )
+,
 
-    : 
-P4
-,	3 :
-    P3  ,  2 
-:
-P2
+    chars
+@lengthOf(
+	calculatedFrom
+    )
+	,crc
+	{o @calculatedFrom( """ ++ [233]%N ++ runes_of_ascii "t" ++ [233]%N ++ runes_of_ascii """
+)
+, float u8x
 
-    ,	1
-:P1  ,
-	} ,}
+    ,repeat
+
+    metadata
+
+uint8x ,
+} ,
+}	,
+
+float64
+	options1,
+@leftPad
+    ( ) @lengthOf(
+
+Foo)  @calculatedFrom(	""packet""
+
+) 
+  //	t
+		// c
+char[  1 	 // c
+	]
+
+    i8i8
+
+@calculatedFrom( 
+""abc""
+    )
+
+`{ , }`
+
+,
+
+    @leftPad
+(
+    '0') T
+{int32
+	i8i8
+    `u8 x,` 
+	//
+		, match Z9_ as	string_  {
+
+    [  7 ,10
+
+, 65535,
+
+0 ,
+
+42 
+, 255
+,
+""\" ++ [233]%N ++ runes_of_ascii """
+    // packet A { u8 x, }
+,
+""`tick`"" ]
+:Foo,  """ ++ [233]%N ++ runes_of_ascii "t" ++ [233]%N ++ runes_of_ascii """
+
+    : u8x  [  255
+
+,"""" ,0 ,
+    """" ,
+	""" ++ [233]%N ++ runes_of_ascii "t" ++ [233]%N ++ runes_of_ascii """,
+
+255
+, 4294967296
+
+    , 00
+
+    ] :
+	i64_
+
+    ,
+
+10  :
+Foo
+}
+,  
+      // trailing space 
+	pack@calculatedFrom(	""`tick`""	),	}
+,	a1 	 //	t
+`say ""hi""`
+
+, 
+}
 ")).
-Eval vm_compute in ("<<<M2039>>>" ++ check (runes_of_ascii "MetaData
-    u { }  options {
-// c
+Eval vm_compute in ("<<<M1236>>>" ++ check (runes_of_ascii "
+packet
+roots
+    {f32 zchar @calculatedFrom( ""a	b""	) `crlf
+line`
+,
 // @lengthOf(
-float = int8 ;rootA =false ; As =	int16 // `tick` ""quote"" 'q'
-repeatCount
-    // trailing space 
-    =
-    int16
-; u8x =
+/// triple
+uint8x
+`tab	here`// `tick` ""quote"" 'q'
+, @rightPad ( // a // b
+)
+@rightPad ( '\x00' ) string int
+@lengthOf( body
+// " ++ [128512]%N ++ runes_of_ascii " emoji
+//	t
+)
+,charz { repeat zchar{BodyLength
+// " ++ [27880; 37322]%N ++ runes_of_ascii "
+// c
+@lengthOf( int // a // b
+) , } , }	, @rightPad (
+' ' ) repeat
+    asx metadata  `it's`
+    ,
+float64 trueish ,repeat//	t
+char[ 42] // " ++ [128512]%N ++ runes_of_ascii " emoji
+body`a\` ,	@rightPad
+    (
+'0' )u32  body
+    `tab	here` , } // `tick` ""quote"" 'q'
+packet chars { @calculatedFrom(
+    ""packet"" ) zchar[ 65535
+]_x , float
+    As`line1
+line2`// c
+, u64 asx @calculatedFrom(
+""1"")
+`u8 x,`
+,crc	@lengthOf(  msg_type ) ,
+    @tag(
+    00 ) //x
+@rightPad
+    (// @lengthOf(
+' ' // c
+) /// triple
+@calculatedFrom( """ ++ [233]%N ++ runes_of_ascii "t" ++ [233]%N ++ runes_of_ascii """ // " ++ [128512]%N ++ runes_of_ascii " emoji
+) uint8
+    calculatedFrom , }options {  Packet =' '
+; Logon
+/// triple
+// trailing space 
+=255
+BodyLength =""// no comment""
+} options { float =
+""a	b"" ; f32a= """ ++ [28040; 24687]%N ++ runes_of_ascii """
     //	t
-    '\x00' ; } options	{
-    repeatCount
-= 0
-u128
-    //
-    = false ; i64_")).
-Eval vm_compute in ("<<<M1590>>>" ++ check (runes_of_ascii "packet
-//	t
-// trailing space 
-_x {
-// packet A { u8 x, }
-// c
-char[
-3
-    ] u8x @lengthOf(
-u8x ) , @calculatedFrom(""" ++ [128512]%N ++ runes_of_ascii """ // @lengthOf(
-)
-i16	Foo
-@lengthOf(	string_
-    )`doc`	u16 repeat	i64 metadata , @lengthOf( string_
-) i8 // c
-u  `line1
-line2`	,
-}
-")).
-Eval vm_compute in ("<<<M1494>>>" ++ check (runes_of_ascii "packet
-//	t
-// trailing space 
-{ _x
-// packet A { u8 x, }
-// c
-char[
-3
-    ] u8x @lengthOf(
-u8x ) , @calculatedFrom(""" ++ [128512]%N ++ runes_of_ascii """ // @lengthOf(
-)
-i16	Foo
-@lengthOf(	string_
-    )`doc`	, repeat	i64 metadata , @lengthOf( string_
-) i8 // c
-u  `line1
-line2`	,
-}
-")).
-Eval vm_compute in ("<<<M1639>>>" ++ check (runes_of_ascii "packet
-//	t
-// trailing space 
-_x {
-// packet A { u8 x, }
-// c
-char[
-3
-    ] u8x @lengthOf(
-u8x ) , @calculatedFrom(""" ++ [128512]%N ++ runes_of_ascii """ // @lengthOf(
-)
-i16	Foo
-@lengthOf(	string_
-    )`doc`	, repeat	i64 metadata , @lengthOf( string_
-) i8 // c
-u  ,	`line1
-line2`
-}
-")).
-Eval vm_compute in ("<<<M1517>>>" ++ check (runes_of_ascii "packet
-//	t
-// trailing space 
-_x {
-// packet A { u8 x, }
-// c
-char[
-3
-    ]  @lengthOf(
-u8x ) , @calculatedFrom(""" ++ [128512]%N ++ runes_of_ascii """ // @lengthOf(
-)
-i16	Foo
-@lengthOf(	string_
-    )`doc`	, repeat	i64 metadata , @lengthOf( string_
-) i8 // c
-u  `line1
-line2`	,
-}
-")).
-Eval vm_compute in ("<<<M2024>>>" ++ check (runes_of_ascii "MetaData
-    u { }  options {
-// c
-// @lengthOf(
-float = int8 ;rootA =false ; As =	int16 // `tick` ""quote"" 'q'
-repeatCount
-    // trailing space 
-    =
-    int16
-; u8x =
-    //	t
-    '\x00' ; } options	{
-    repeatCount
-= 0
-u128
-    //
-    =")).
-Eval vm_compute in ("<<<M4577>>>" ++ check (runes_of_ascii "options{
-    trueish
+    len =
+    uint64 ;
+    calculatedFrom='0' // " ++ [27880; 37322]%N ++ runes_of_ascii "
+; }")).
+Eval vm_compute in ("<<<M4050>>>" ++ check (runes_of_ascii "
+MetaData 
+        //
+	body {  u16
+    roots	`say ""hi""`
+,
 
-    =
-""`tick`""string_	= 
-""" ++ [233]%N ++ runes_of_ascii "t" ++ [233]%N ++ runes_of_ascii """ 
-      // c
+char[ 65535
 
+    ]  o
+
+    ,uint32 
+Z9_ , char
+	trueish`crlf
+line` ,
 	}
 
-    root packet
-	body {
+packet	crc	// packet A { u8 x, }
+    { u128
 
-    stringy
-@calculatedFrom( ""a	b""
-)	`line1
-line2` 
-,} packet
-    Logon { 
-@leftPad (  ' '  ) 	 //	t
-    	u16  string_ `u8 x,` 
+    ,	repeat
+char[]
+    trueish
 , 
-} ")).
-Eval vm_compute in ("<<<M493>>>" ++ check (runes_of_ascii "options { }// a // b
-packet BodyLength {zchar[
-0123456789
-] packetx
-`doc`
-, repeat
-msg_type `// not a comment`
+string 
+asx	@lengthOf(  zchar )  // c
+
+`crlf
+line`,int{ int  u 	 //
+    ,} ,
+    @tag(
+10 )
+
 // @lengthOf(
-// c
-,	zchar[00 ] len, chars
-@lengthOf(  chars ) `a\`	, }
-MetaData
-_x {	asx MetaDataX `{ , }`, }
-")).
-Eval vm_compute in ("<<<M4047>>>" ++ check (runes_of_ascii "packet _x {
-    // packet A { u8 x, }
-    // c
-    char[3] u8x @lengthOf(u8x),
-    @calculatedFrom(""" ++ [128512]%N ++ runes_of_ascii """)
-    i16 Foo @lengthOf(string_),
-    repeat i64 metadata,
-    @lengthOf(string_)
-    i8 u `line1
-        line2`,
-}")).
-Eval vm_compute in ("<<<M388>>>" ++ check (runes_of_ascii "packet falsey
-    //
-    { @calculatedFrom( // @lengthOf(
-""`tick`"" )
-Pad
-/// triple
-// c
-{
-match
-pack as roots { """ ++ [233]%N ++ runes_of_ascii "t" ++ [233]%N ++ runes_of_ascii """ : u ,
-42: //
-As""packet"" : Logon,
-}
-    ,}
-    , } options
-{ } root
-    packet stringy { }")).
-Eval vm_compute in ("<<<M3700>>>" ++ check (runes_of_ascii "MetaData 
-lengthOf
-	{
-asx
-x , i8
-MetaDataX , string  
-      /// triple
-  // trailing space 
+		zchar[ 
+//x
+	//x
+	65535] 	 /// triple
 
-  _x
-    ,
-repeatCount 
-Pad  ,
+zchar @calculatedFrom( """ ++ [28040; 24687]%N ++ runes_of_ascii """)`a\`  ,
+	@rightPad
+
+    ( '\x00'
+    ) string crc
+@lengthOf(
+    // trailing space 
+    o ) 
+,
+
+match rootA
+    as len	{	[ 10 ,
+
+3	// " ++ [27880; 37322]%N ++ runes_of_ascii "
+	  ,
+
+""\n"" , """ ++ [233]%N ++ runes_of_ascii "t" ++ [233]%N ++ runes_of_ascii """
+    ,	""packet"" ] :
+// a // b
+    leftPad
+, 65535  : 
+pack},
+
 zchar[
-	// trailing space 
-		//
-  	00] crc// @lengthOf(
+	65535
+    ] 
+	    //x
+	asx
 
-  `two words`
-,	}	//x
+`u8 x,`  
+  // a // b
+  ,i16 
+    // @lengthOf(
+	// " ++ [27880; 37322]%N ++ runes_of_ascii "
+
+	roots
+    `u8 x,`
+,
+
+    // " ++ [128512]%N ++ runes_of_ascii " emoji
+//
+    @leftPad
+
+    ( ) 
+f64
+	Packet
+    ,
+    }  packet
+tag
+    {
+
+@rightPad	//
+('0')repeat 
+char[ 
+00 
+] crc ,
+
+    }
+packet
+
+    stringy {  char[] 
+roots	`" ++ [233]%N ++ runes_of_ascii "` //	t
+      ,
+
+    }")).
+Eval vm_compute in ("<<<M258>>>" ++ check (runes_of_ascii "
+packet leftPad
+    {}	packet u{@leftPad
+( ' ' )
+    char[65535 ]leftPad, int8
+packetx ,
+string stringy `crlf
+line` ,@leftPad
+( // @lengthOf(
+' ' // " ++ [27880; 37322]%N ++ runes_of_ascii "
+) // " ++ [128512]%N ++ runes_of_ascii " emoji
+i64 x
+@lengthOf( u )
+    `" ++ [28040; 24687; 31867; 22411]%N ++ runes_of_ascii "`	,@lengthOf( pack )
+// a // b
+//
+u64 asx  @lengthOf( repeatCount )
+    `u8 x,` , o A ,}	root packet charz{
+char[]repeatCount
+    //x
+    @lengthOf( tag ) ``
+,
+    repeat pack	`a\` , @calculatedFrom( ""// no comment""
+    //x
+    ) T { string rootA // " ++ [27880; 37322]%N ++ runes_of_ascii "
+@calculatedFrom(""{,}"" )  ,
+    }, repeat As
+    Foo
+, char[
+3] trueish ,@calculatedFrom(""""
+    )@lengthOf(
+metadata)@leftPad ('0'
+/// triple
+//x
+) repeat u64 float `{ , }`
+// " ++ [27880; 37322]%N ++ runes_of_ascii "
+// " ++ [128512]%N ++ runes_of_ascii " emoji
+, stringy {
+// packet A { u8 x, }
+// c
+metadata
+    { u8 f32a `two words` , repeat  char[ 007 ] f32a
+`
+` ,
+    } ,  u32 asx @calculatedFrom(""" ++ [233]%N ++ runes_of_ascii "t" ++ [233]%N ++ runes_of_ascii """
+) ,float64 i8i8 ,//x
+} ,
+// c
+// " ++ [27880; 37322]%N ++ runes_of_ascii "
+match lengthOf as zchar
+    /// triple
+    {
+    00 :o,  } , }")).
+Eval vm_compute in ("<<<M3624>>>" ++ check (runes_of_ascii "// top
+options // c0
+{
+    // c1
+LittleEndian = // c3a
+  // c3b
+true ; // c5
+StringPrefixLenType // c6a
+  // c6b
+= u8 // c8a
+  // c8b
+;
+    // c9
+ArrayPrefixLenType // c10a
+  // c10b
+= u8
+    // c12
+;
+    // c13
+} // c14a
+  // c14b
+packet // c15
+Ack // c16a
+  // c16b
+{
+    // c17
+} // c18a
+  // c18b
+root // c19
+packet // c20
+Quote
+    // c21
+{
+    // c22
+Ack // c23
+,
+    // c24
+InSym94
+    // c25
+{ // c26
+repeat Ack // c28a
+  // c28b
+,
+    // c29
+} , // c31
+u16 // c32a
+  // c32b
+msgKind // c33
+, // c34a
+  // c34b
+u16 OrderId // c36a
+  // c36b
+@lengthOf(
+    // c37
+Body // c38a
+  // c38b
+) // c39
+, // c40a
+  // c40b
+match
+    // c41
+msgKind // c42
+as
+    // c43
+Body // c44a
+  // c44b
+{ // c45a
+  // c45b
+[ // c46
+110 ,
+    // c48
+48 // c49a
+  // c49b
+] // c50
+:
+    // c51
+Ack // c52
+, }
+    // c54
+,
+    // c55
+} // c56a
+  // c56b
+")).
+Eval vm_compute in ("<<<M77>>>" ++ check (runes_of_ascii "  options
+{  T
+= ' ' }
+MetaData Pad
+    //x
+    {
+string_ u128  , u64 // @lengthOf(
+uint8x `two words` , int8 repeatCount
+, }
+    packet
+len{
+    Packet
+    `
+`
+,@calculatedFrom( ""a\""b""
+) zchar[
+    42 ]
+rootA ,
+    @calculatedFrom(
+""packet"" )
+@calculatedFrom( ""\n"" ) Packet @calculatedFrom( ""\" ++ [233]%N ++ runes_of_ascii """  )
+    `" ++ [28040; 24687; 31867; 22411]%N ++ runes_of_ascii "`, @leftPad
+    (
+    '\x00' )
+@leftPad (	)
+@rightPad (
+)
+repeat string_
+    {match asx // c
+as rootA {[
+""`tick`"",65535	]:
+falsey ,} , trueish
+, char Z9_`// not a comment` ,
+    Packet Logon `{ , }`, } ,@tag( 1 )
+    match x as pack//	t
+{
+1 :stringy // `tick` ""quote"" 'q'
+, [	42 ]:  x }  ,
+repeat//x
+i8 u8x , @calculatedFrom(""packet"") string_ // c
+@lengthOf( rootA ),	falsey
+@lengthOf( x )
+,} options
+{}
+root packet u { @lengthOf(x_y_z )	u
+    @calculatedFrom( """"
+)
+`two words`, }")).
+Eval vm_compute in ("<<<M4125>>>" ++ check (runes_of_ascii "packet repeatCount {
+    @tag(1)
+    @leftPad(' ')
+    @leftPad('\x00')
+    int16 trueish @lengthOf(len) `// not a comment`,
+    @calculatedFrom(""it's"")
+    f64 trueish @lengthOf(pack),
+    i64 int `u8 x,`,
+    int16 Packet,
+    repeat trueish {
+        char[65535] int @lengthOf(Foo) `crlf
+        line`,
+    },
+    match chars as u128 {
+        0123456789 : uint8x,
+        ""1"" : A,
+        ""packet"" : matchKey,
+        0 : crc,
+        ""abc"" : T,
+    },
+    @rightPad()
+    match a1 as u128 {
+        3 : lengthOf,
+        ""a\\"" : trueish,
+        007 : rootA,
+    },
+    @leftPad(' ')
+    string_ `tab	here`,
+    packetx @lengthOf(Header),
+    @tag(255)
+    @tag(42)
+    char[] packetx,// `tick` ""quote"" 'q'
+}
+
+options {
+    rootA = ' '
+    x_y_z = int8
+}")).
+Eval vm_compute in ("<<<M344>>>" ++ check (runes_of_ascii "// " ++ [27880; 37322]%N ++ runes_of_ascii "
+root packet _x {
+//	t
+// packet A { u8 x, }
+@rightPad (
+) zchar[
+    007]
+    Logon @calculatedFrom(""x y""),zchar[
+7]
+string_ @lengthOf(
+Packet /// triple
+)
+`two words`,
+@tag( 007 )	@calculatedFrom(
+    ""x y"" )repeat
+calculatedFrom { // packet A { u8 x, }
+zchar @calculatedFrom( """ ++ [233]%N ++ runes_of_ascii "t" ++ [233]%N ++ runes_of_ascii """
+    // `tick` ""quote"" 'q'
+    )	,
+int32 leftPad , } ,repeat body chars ,	@lengthOf(
+options1
+    ) repeat
+    //	t
+    char[
+255] Foo  ,
+// c
+//
+repeat MetaDataX
+    { pack, } ,char[
+7 ] repeatCount @calculatedFrom(""it's""  ) , }
+    // trailing space 
+    packet Packet {
+    Header
+// " ++ [27880; 37322]%N ++ runes_of_ascii "
+// @lengthOf(
+@lengthOf( uint8x ) `two words` ,} options//	t
+{  } root
+    // " ++ [27880; 37322]%N ++ runes_of_ascii "
+    packet msg_type
+{int32 //x
+body`" ++ [28040; 24687; 31867; 22411]%N ++ runes_of_ascii "`,
+    }
+")).
+Eval vm_compute in ("<<<M57>>>" ++ check (runes_of_ascii "root
+packet string_{ i32 uint8x @calculatedFrom( ""\" ++ [233]%N ++ runes_of_ascii """ ) , body ,@tag(// a // b
+0  ) Z9_
+    @calculatedFrom(
+""" ++ [28040; 24687]%N ++ runes_of_ascii """),
+@lengthOf( stringy	)  falsey
+    { repeat trueish { u64 i8i8 , }
+,  } ,
+char[] leftPad
+@lengthOf( falsey
+    // c
+    ),	@calculatedFrom(	""a	b""
+    )
+//x
+// " ++ [27880; 37322]%N ++ runes_of_ascii "
+char[]  BodyLength,//x
+match
+falsey as crc{255 :falsey ,[
+//x
+// @lengthOf(
+7,7] // @lengthOf(
+:
+//
+//x
+crc, ""a	b""// `tick` ""quote"" 'q'
+: i8i8,255  : a1
+, } ,Logon@lengthOf( _x // `tick` ""quote"" 'q'
+)
+, match	lengthOf as  o{ ""packet"" :	x_y_z ,} , } options
+{
+//	t
+// `tick` ""quote"" 'q'
+calculatedFrom
+=
+""// no comment""  ;
+    x
+    ='\x00' a1
+= ""abc"" ; x_y_z=
+65535 ; } packet Foo
+{ } packet o { }")).
+Eval vm_compute in ("<<<M750>>>" ++ check (runes_of_ascii "packet a1
+    {  repeat//
+tag
+f32a /// triple
+`crlf
+line`,
+    /// triple
+    char[  4294967296] u, char[ 3]o , @tag( 007) // trailing space 
+int ,} options // " ++ [128512]%N ++ runes_of_ascii " emoji
+{}packet pack{ charz @lengthOf(
+BodyLength ) `line1
+line2`
+,@tag(65535) match
+pack as asx
+{42 : msg_type ,	007// packet A { u8 x, }
+:
+T ,
+    4294967296: float , }	, // a // b
+@tag(4294967296)
+    u8
+stringy
+    @lengthOf(
+    msg_type ) , @calculatedFrom( ""abc""
+)
+repeat len ,@rightPad ( '0'
+    )string //
+int
+@lengthOf( i8i8
+    ) , } MetaData crc
+    { char[] u128 ,char[] T
+`a\`
+    ,
+    // " ++ [27880; 37322]%N ++ runes_of_ascii "
+    packetx	chars ,  float64 tag`{ , }` ,
+    MetaDataX charz ,}
+")).
+Eval vm_compute in ("<<<M602>>>" ++ check (runes_of_ascii "options
+{
+    x
+// " ++ [27880; 37322]%N ++ runes_of_ascii "
+// " ++ [128512]%N ++ runes_of_ascii " emoji
+= true trueish =007 ;float =
+    // trailing space 
+    int64;/// triple
+metadata= true //	t
+} options  { As= ""{,}""	;} packet
+    As{ @rightPad
+    ( '0' ) @leftPad // " ++ [27880; 37322]%N ++ runes_of_ascii "
+( '0' ) char[ 10
+]trueish
+// c
+//	t
+, @calculatedFrom( ""`tick`"" ) Foo
+{
+int64 packetx @calculatedFrom(	""a\""b"" ) `" ++ [28040; 24687; 31867; 22411]%N ++ runes_of_ascii "`
+, repeat int64 int // a // b
+, zchar[007
+    ] Header
+//
+//
+, repeat
+    body
+    , // " ++ [27880; 37322]%N ++ runes_of_ascii "
+}
+    , repeat char[0  ] u8x // packet A { u8 x, }
+, Pad ,
+@rightPad ( '0'  )
+f64 leftPad//	t
+`a\`	, repeat
+    rootA repeatCount `{ , }` , rootA float
+// packet A { u8 x, }
+//x
+`doc`, }")).
+Eval vm_compute in ("<<<M744>>>" ++ check (runes_of_ascii "// " ++ [128512]%N ++ runes_of_ascii " emoji
+options // c
+{
+Packet	= char[]a1	=
+    0 ;
+    BodyLength = char[]; } MetaData
+    BodyLength	{
+    T string_ `" ++ [28040; 24687; 31867; 22411]%N ++ runes_of_ascii "` , x_y_z
+    // trailing space 
+    stringy `say ""hi""`	,
+    char Packet`" ++ [28040; 24687; 31867; 22411]%N ++ runes_of_ascii "` , leftPad Packet
+    ,
+} packet packetx
+{
+    //x
+    match uint8x as T	{ [ /// triple
+""`tick`"" ,
+    0123456789 ,
+""// no comment"" ,
+    255 , ""abc"", 10 // c
+]
+: i64_ , [ ""{,}"" , ""a\""b"" ] : int
+, [0123456789 ,
+    //x
+    65535
+    , 255 // `tick` ""quote"" 'q'
+,255
+    ] // @lengthOf(
+: repeatCount , //x
+} // " ++ [128512]%N ++ runes_of_ascii " emoji
+, repeat char[ 255 ]  A ,	repeat Foo`tab	here`  ,}
+
+")).
+Eval vm_compute in ("<<<M377>>>" ++ check (runes_of_ascii "packet float { @leftPad ( ' ' )repeat
+metadata falsey
+,lengthOf matchKey , int32
+roots , int16 Pad@calculatedFrom( // " ++ [128512]%N ++ runes_of_ascii " emoji
+""\" ++ [233]%N ++ runes_of_ascii """)
+, // a // b
+lengthOf
+    @calculatedFrom( ""`tick`"")// c
+`" ++ [28040; 24687; 31867; 22411]%N ++ runes_of_ascii "` ,
+@lengthOf( metadata) i8i8
+,@rightPad(
+// packet A { u8 x, }
+//	t
+'0'
+) Foo ,
+    // trailing space 
+    @tag(
+10 //
+)chars	`
+`
+    , @tag( 7
+)
+    // " ++ [128512]%N ++ runes_of_ascii " emoji
+    @leftPad ( ) repeat zchar[ 255 ]
+u128
+, // c
+}
+    options {//	t
+msg_type =
+0	; // @lengthOf(
+u = ' ' x_y_z =65535 u128 // packet A { u8 x, }
+= char[] ; zchar	= zchar[ 3
+    ]
+; }
+
+")).
+Eval vm_compute in ("<<<M84>>>" ++ check (runes_of_ascii "MetaData rootA
+    {}
+options{ rootA= '\x00' zchar
+    ='0' rootA= float64 ;  trueish	= 3 i64_
+= float64 ; } options{
+    body
+= '0'
+    ;T= ""CRC32"";matchKey = char[] ; }	packet
+rootA {
+    // " ++ [128512]%N ++ runes_of_ascii " emoji
+    @lengthOf( //
+Z9_)
+    @rightPad('0' ) Packet calculatedFrom , }packet
+body
+    { match metadata
+as asx {
+    3 : Header 3: packetx	, [  10]
+:	Packet, """"
+// " ++ [27880; 37322]%N ++ runes_of_ascii "
+// @lengthOf(
+: pack
+,
+10  :
+    // packet A { u8 x, }
+    pack [  255 // `tick` ""quote"" 'q'
+, // `tick` ""quote"" 'q'
+""""
+    , 00 // a // b
+,""it's""] :
+x } ,
+}
+
+")).
+Eval vm_compute in ("<<<M4144>>>" ++ check (runes_of_ascii "
+MetaData  o{
+    }packet 
+BodyLength
+	{@tag(
+
+    255
+
+    )zchar[
+
+    00 ]
+leftPad
+	@lengthOf(float )
+`" ++ [233]%N ++ runes_of_ascii "`
+
+    ,
+}
+	packet asx {@leftPad
+( )
+	char[]
+_x 
+,
+char[ 65535]/// triple
+trueish @calculatedFrom(
+""a\""b"" 
+)  ,
+
+int64 u ,
+match	x
+as u8x
+
+    {255	//	t
+    :	/// triple
+o
+, 65535 :
+
+asx ,
+
+""a\\""	:
+
+string_
+
+, ""\" ++ [233]%N ++ runes_of_ascii """ :
+    f32a ,
+
+    65535 
+:  //	t
+
+x_y_z 
+,7
+: uint8x
+}  ,
+	repeat
+	msg_type 
+{
+	u128 charz ``
+,
+
+u64 options1	, repeat
+a1 `` 
+, }
+
+,
+repeatCount 
+,}
+
+    // c")).
+Eval vm_compute in ("<<<M155>>>" ++ check (runes_of_ascii "packet T {
+    @lengthOf( MetaDataX )match
+    Packet as a1 { [ ""1""] : zchar ""{,}""
+    : _x ,} ,// @lengthOf(
+char[ 007 ]// a // b
+u128@lengthOf(
+zchar)
+// a // b
+// packet A { u8 x, }
+,string_ , @leftPad ( ' ')match MetaDataX as u128 { [ ""it's"" ,7 , 65535
+, 65535]	:  chars,""" ++ [28040; 24687]%N ++ runes_of_ascii """// c
+: u , 42 : zchar , }
+    , } options // `tick` ""quote"" 'q'
+{
+    matchKey =
+""a\""b""
+    }	MetaData
+    options1 { i16
+len , char[ 7
+] // packet A { u8 x, }
+crc ,u16 asx `say ""hi""` ,i64 zchar, } // " ++ [27880; 37322]%N)).
+Eval vm_compute in ("<<<M1373>>>" ++ check (runes_of_ascii "// @lengthOf(
+MetaData msg_type
+// `tick` ""quote"" 'q'
+// @lengthOf(
+{ string
+Logon ,
+i8 repeatCount
+    `// not a comment`, }
+packet i64_ {
+    // c
+    @leftPad(
+'0' )repeat repeatCount
+`u8 x,` , Header {// " ++ [27880; 37322]%N ++ runes_of_ascii "
+A{ uint32 T `crlf
+line` ,
+} , }, }
+MetaData Header// " ++ [27880; 37322]%N ++ runes_of_ascii "
+{
+    Header u `doc` ,
+    // " ++ [27880; 37322]%N ++ runes_of_ascii "
+    char[ 4294967296 ] u128
+, float32 falsey , char[ 10
+    ]
+roots`crlf
+line`
+    ,
+int64 calculatedFrom `say ""hi""` ,} root packet i64_ { /// triple
+}
+")).
+Eval vm_compute in ("<<<M736>>>" ++ check (runes_of_ascii "packet metadata { match trueish
+as body
+    { 0123456789
+    :A, 1
+    :
+    rootA [//
+""packet"" ,65535 , 65535 , ""a	b""
+    ,42 , ""x y"" , 1// @lengthOf(
+, 0 ]	:
+// packet A { u8 x, }
+// " ++ [128512]%N ++ runes_of_ascii " emoji
+u128 ,//	t
+10 :
+As ,
+    0123456789 :stringy ,
+""x y""	: BodyLength, } ,
+i64_ options1`a\` , } packet
+trueish {
+    /// triple
+    }packet BodyLength	{ i32 charz ,
+@calculatedFrom(// @lengthOf(
+""" ++ [28040; 24687]%N ++ runes_of_ascii """ )	repeat float32 asx `doc` , } // trailing space ")).
+Eval vm_compute in ("<<<M1211>>>" ++ check (runes_of_ascii "packet
+f32a {
+i64_  falsey ,match
+/// triple
+//
+i8i8 as _x { // " ++ [27880; 37322]%N ++ runes_of_ascii "
+0
+    //x
+    : Logon,[65535 , ""x y""
+    ]:Header ,
+4294967296//x
+: Foo, /// triple
+} ,
+@tag( 0123456789 )	u8x msg_type
+`say ""hi""`  , }  packet
+    // a // b
+    Z9_  {
+    repeatCount leftPad  `two words` // `tick` ""quote"" 'q'
+,
+}
+    MetaData
+calculatedFrom{ u charz `{ , }`
+,
+    u64 T //x
+`tab	here`, Foo	options1 `" ++ [233]%N ++ runes_of_ascii "` ,
+char[] x
+`doc` ,i8i8
+u8x  ,}
+
+")).
+Eval vm_compute in ("<<<M1306>>>" ++ check (runes_of_ascii "packet string_ { zchar[ 3 ] // c
+stringy @lengthOf( packetx  )`u8 x,` //
+, // `tick` ""quote"" 'q'
+f64 string_ ``, } MetaData leftPad{ char[
+    1 ] MetaDataX `crlf
+line` ,
+    metadata a1
+`tab	here` ,	T o `line1
+line2` , // " ++ [128512]%N ++ runes_of_ascii " emoji
+o
+trueish ,}options
+{ }
+MetaData
+    // @lengthOf(
+    T
+{Foo Logon
+    , Logon lengthOf , char[
+    00 ]
+    pack , char[7 ]
+// @lengthOf(
+// trailing space 
+i8i8 `` ,}
+")).
+Eval vm_compute in ("<<<M4462>>>" ++ check (runes_of_ascii "packet Foo {
+    Logon A `a\`,
+    a1 A,
+    @lengthOf(tag)
+    // trailing space 
+    x_y_z @lengthOf(leftPad) `it's`,
+    @tag(255)
+    match crc as roots {
+        """ ++ [233]%N ++ runes_of_ascii "t" ++ [233]%N ++ runes_of_ascii """ : Foo,
+        [10, 007, """ ++ [233]%N ++ runes_of_ascii "t" ++ [233]%N ++ runes_of_ascii """, ""a	b""] : x_y_z,
+    },// @lengthOf(
+}
+
+root packet As {
+}
+
+MetaData calculatedFrom {
+    Z9_ _x ``,
+}
+
+MetaData tag {
+    // " ++ [27880; 37322]%N ++ runes_of_ascii "
+    string body,
+    string options1,
+    i8i8 pack,
+}")).
+Eval vm_compute in ("<<<M4294>>>" ++ check (runes_of_ascii "
+root packet
+u128  {	match zchar
+
+    as
+msg_type// `tick` ""quote"" 'q'
+  	{
+7  
+  //	t
+    :
+lengthOf
+
+,  0123456789  :MetaDataX""{,}"" : o 
+,  255
+    // trailing space 
+    //
+: //
+	metadata
+    ,[
+
+1
+    ] :
+	A 
+,	[
+
+007
+,
+
+""a\\""
+
+    ,
+0123456789	, 
+255
+    ,""\" ++ [233]%N ++ runes_of_ascii """ ,  007	]
+: 
+    // `tick` ""quote"" 'q'
+  // packet A { u8 x, }
+falsey,
+}
+    ,
+    } // a // b
+")).
+Eval vm_compute in ("<<<M368>>>" ++ check (runes_of_ascii "packet f32a{
+    /// triple
+    @calculatedFrom( """" ) matchKey	@lengthOf(
+Packet	) `// not a comment` , match msg_type
+//	t
+// c
+as lengthOf {"""":Z9_ ,
+    ""`tick`""
+    : crc , // " ++ [27880; 37322]%N ++ runes_of_ascii "
+[ //
+""\n"" ]: T	,
+    ""x y""
+    :
+    // " ++ [128512]%N ++ runes_of_ascii " emoji
+    _x
+    ,// @lengthOf(
+[  ""a\""b"" //
+] :  u128 }
+,zchar[ 7 ]
+// trailing space 
+// a // b
+_x
+,repeat len MetaDataX ,}
+")).
+Eval vm_compute in ("<<<M816>>>" ++ check (runes_of_ascii "// " ++ [128512]%N ++ runes_of_ascii " emoji
+options{
+}
+    packet a1{
+// packet A { u8 x, }
+//x
+@lengthOf(Foo )
+    pack {
+repeat matchKey // " ++ [27880; 37322]%N ++ runes_of_ascii "
+leftPad,zchar[7 ] zchar `{ , }` // c
+,
+charz @lengthOf( // " ++ [128512]%N ++ runes_of_ascii " emoji
+x_y_z
+    )
+    `
+`
+    , } ,}  root packet roots { } options {
+    calculatedFrom =false ;o
+= int64
+;
+    u =
+""a\\""zchar = // packet A { u8 x, }
+42 ;	}
+
+")).
+Eval vm_compute in ("<<<M38>>>" ++ check (runes_of_ascii "  packet
+    i64_
+    {
+    Z9_ @lengthOf(
+charz)	`doc`
+    , Pad {  body @lengthOf( string_ ) //
+`say ""hi""`	, uint64 metadata@lengthOf(Logon )`say ""hi""` ,
+    zchar[ 3
+    ] f32a`{ , }` ,repeat uint8	leftPad
+/// triple
+/// triple
+,  }
+,char[] _x @lengthOf( As)
+    `
+` ,  char[ 65535
+    ]matchKey  `// not a comment`
+,}")).
+Eval vm_compute in ("<<<M3561>>>" ++ check (runes_of_ascii "// top
+options // c0a
+  // c0b
+{ // c1a
+  // c1b
+LittleEndian // c2
+=
+    // c3
+true
+    // c4
+; // c5
+}
+    // c6
+root
+    // c7
+packet // c8a
+  // c8b
+P // c9
+{ u16 a
+    // c12
+, // c13a
+  // c13b
+u32 Sum // c15
+@calculatedFrom(
+    // c16
+""CRC32"" // c17
+) // c18a
+  // c18b
+, // c19a
+  // c19b
+} // c20a
+  // c20b
+")).
+Eval vm_compute in ("<<<M1976>>>" ++ check (runes_of_ascii "MetaData
+    u { }  options {
+// c
+// @lengthOf(
+float = int8 ;rootA =false ; As =	int16 // `tick` ""quote"" 'q'
+repeatCount
+    // trailing space 
+    =
+    int16
+; u8x =
+    //	t
+    '\x00' ; ; } options	{
+    repeatCount
+= 0
+u128
+    //
+    = false ; i64_
+// trailing space 
+// `tick` ""quote"" 'q'
+= '0' ; //	t
+}
+")).
+Eval vm_compute in ("<<<M2070>>>" ++ check (runes_of_ascii "MetaData
+    u { }  options {
+// c
+// @lengthOf(
+float = int8 ;rootA =false ; As =	int16 // `tick` ""quote"" 'q'
+repeatCount
+    // trailing space 
+    =
+    int16
+; u8x =
+    //	<t
+    '\x00' ; } options	{
+    repeatCount
+= 0
+u128
+    //
+    = false ; i64_
+// trailing space 
+// `tick` ""quote"" 'q'
+= '0' ; //	t
+}
+")).
+Eval vm_compute in ("<<<M1978>>>" ++ check (runes_of_ascii "MetaData
+    u { }  options {
+// c
+// @lengthOf(
+float = int8 ;rootA =false ; As =	int16 // `tick` ""quote"" 'q'
+repeatCount
+    // trailing space 
+    =
+    int16
+; u8x =
+    //	t
+    '\x00' , } options	{
+    repeatCount
+= 0
+u128
+    //
+    = false ; i64_
+// trailing space 
+// `tick` ""quote"" 'q'
+= '0' ; //	t
+}
+")).
+Eval vm_compute in ("<<<M1965>>>" ++ check (runes_of_ascii "MetaData
+    u { }  options {
+// c
+// @lengthOf(
+float = int8 ;rootA =false ; As =	int16 // `tick` ""quote"" 'q'
+repeatCount
+    // trailing space 
+    =
+    int16
+; u8x 
+    //	t
+    '\x00' ; } options	{
+    repeatCount
+= 0
+u128
+    //
+    = false ; i64_
+// trailing space 
+// `tick` ""quote"" 'q'
+= '0' ; //	t
+}
+")).
+Eval vm_compute in ("<<<M1915>>>" ++ check (runes_of_ascii "MetaData
+    u { }  options {
+// c
+// @lengthOf(
+float = int8 ;rootA = ; As =	int16 // `tick` ""quote"" 'q'
+repeatCount
+    // trailing space 
+    =
+    int16
+; u8x =
+    //	t
+    '\x00' ; } options	{
+    repeatCount
+= 0
+u128
+    //
+    = false ; i64_
+// trailing space 
+// `tick` ""quote"" 'q'
+= '0' ; //	t
+}
+")).
+Eval vm_compute in ("<<<M197>>>" ++ check (runes_of_ascii "packet	zchar { char[]  i64_,
+    // " ++ [128512]%N ++ runes_of_ascii " emoji
+    @calculatedFrom(	""// no comment"" ) match charz
+    as tag
+{ [""it's""
+, 4294967296
+    ,/// triple
+""a	b""
+    , """ ++ [28040; 24687]%N ++ runes_of_ascii """
+,""" ++ [128512]%N ++ runes_of_ascii """
+    ,  255 ,007 ] // packet A { u8 x, }
+: i64_
+, [	0123456789 ,3
+, 00 ]: // `tick` ""quote"" 'q'
+Packet , [ """ ++ [233]%N ++ runes_of_ascii "t" ++ [233]%N ++ runes_of_ascii """ ]
+:a1 ,	}
+,
+    }
+")).
+Eval vm_compute in ("<<<M3716>>>" ++ check (runes_of_ascii "packet asx {
+    @calculatedFrom(""x y"")
+    packetx stringy,
+}
+
+MetaData As {
+    int8 float `" ++ [233]%N ++ runes_of_ascii "`,
+    int uint8x,
+    zchar[007] a1 `two words`,
+    // a // b
+    /// triple
+    char[10] msg_type,
+    uint32 matchKey `say ""hi""`,
+    // `tick` ""quote"" 'q'
+    //x
+    i32 zchar,
+}
+
+options {
+}")).
+Eval vm_compute in ("<<<M871>>>" ++ check (runes_of_ascii "packet len
+{@calculatedFrom(
+    ""x y"" ) @tag(3
+// packet A { u8 x, }
+// `tick` ""quote"" 'q'
+)
+//
+// c
+@tag( 1)
+    /// triple
+    match
+o as
+    Header { 007 : BodyLength
+    ,	""x y"" : zchar
+, [
+""abc""] : string_
+, } ,// c
+int32
+// packet A { u8 x, }
+// a // b
+leftPad , } // c")).
+Eval vm_compute in ("<<<M167>>>" ++ check (runes_of_ascii "options { roots
+=//x
+int64 }
+// @lengthOf(
+// @lengthOf(
+packet
+    int {
+char  zchar, repeat len {
+    f32a `" ++ [28040; 24687; 31867; 22411]%N ++ runes_of_ascii "`, } ,zchar[
+007 ]As
+    `it's`
+,  zchar[007
+    // a // b
+    ] uint8x @lengthOf(
+    //x
+    Foo)
+    ,
+// packet A { u8 x, }
+// packet A { u8 x, }
+}
+")).
+Eval vm_compute in ("<<<M907>>>" ++ check (runes_of_ascii "packet asx {
+@calculatedFrom( ""x y"" ) packetx	stringy ,	}MetaData As
+{ int8
+    float `" ++ [233]%N ++ runes_of_ascii "`,
+int
+uint8x, zchar[ 007  ] a1 `two words` ,
+// a // b
+/// triple
+char[	10
+]msg_type	, uint32 matchKey `say ""hi""` ,
+// `tick` ""quote"" 'q'
+//x
+i32 zchar,
+    } options {
+}")).
+Eval vm_compute in ("<<<M3688>>>" ++ check (runes_of_ascii "MetaData u8x
+{
+
+msg_type
+T	`it's`,
+    // `tick` ""quote"" 'q'
+    // trailing space 
+      zchar[4294967296
+] len	/// triple
+	, u32
+chars
+	`a\`
+    , metadata
+	calculatedFrom `{ , }` ,}  packet Z9_ {}
+
+    root
+    packet  Logon 
+{
+}
+	/// triple
+")).
+Eval vm_compute in ("<<<M4051>>>" ++ check (runes_of_ascii "MetaData _x {
+    As f32a `doc`,
+}
+
+packet x {
+    zchar[255] calculatedFrom,
+    string_ @calculatedFrom(""a	b""),
+    @calculatedFrom(""" ++ [128512]%N ++ runes_of_ascii """)
+    @tag(4294967296)
+    @calculatedFrom(""a	b"")
+    char[0] i64_ `" ++ [28040; 24687; 31867; 22411]%N ++ runes_of_ascii "`,
+    @leftPad(' ')
+    repeat MetaDataX,
+}")).
+Eval vm_compute in ("<<<M1544>>>" ++ check (runes_of_ascii "packet
+//	t
+// trailing space 
+_x {
+// packet A { u8 x, }
+// c
+char[
+3
+    ] u8x @lengthOf(
+u8x ) , """ ++ [128512]%N ++ runes_of_ascii """@calculatedFrom( // @lengthOf(
+)
+i16	Foo
+@lengthOf(	string_
+    )`doc`	, repeat	i64 metadata , @lengthOf( string_
+) i8 // c
+u  `line1
+line2`	,
+}
+")).
+Eval vm_compute in ("<<<M1532>>>" ++ check (runes_of_ascii "packet
+//	t
+// trailing space 
+_x {
+// packet A { u8 x, }
+// c
+char[
+3
+    ] u8x @lengthOf(
+u8x  , @calculatedFrom(""" ++ [128512]%N ++ runes_of_ascii """ // @lengthOf(
+)
+i16	Foo
+@lengthOf(	string_
+    )`doc`	, repeat	i64 metadata , @lengthOf( string_
+) i8 // c
+u  `line1
+line2`	,
+}
+")).
+Eval vm_compute in ("<<<M1502>>>" ++ check (runes_of_ascii "packet
+//	t
+// trailing space 
+_x {
+// packet A { u8 x, }
+// c
+
+3
+    ] u8x @lengthOf(
+u8x ) , @calculatedFrom(""" ++ [128512]%N ++ runes_of_ascii """ // @lengthOf(
+)
+i16	Foo
+@lengthOf(	string_
+    )`doc`	, repeat	i64 metadata , @lengthOf( string_
+) i8 // c
+u  `line1
+line2`	,
+}
+")).
+Eval vm_compute in ("<<<M4081>>>" ++ check (runes_of_ascii "MetaData u {
+}
+
+options {
+    // c
+    // @lengthOf(
+    float = int8;
+    rootA = false;
+    As = int16// `tick` ""quote"" 'q'
+    repeatCount = int16;
+    u8x = '\x00';
+}
+
+options {
+    repeatCount = 0
+    u128 = false;
+    i64_ = '0'//	t
+}")).
+Eval vm_compute in ("<<<M1641>>>" ++ check (runes_of_ascii "packet
+//	t
+// trailing space 
+_x {
+// packet A { u8 x, }
+// c
+char[
+3
+    ] u8x @lengthOf(
+u8x ) , @calculatedFrom(""" ++ [128512]%N ++ runes_of_ascii """ // @lengthOf(
+)
+i16	Foo
+@lengthOf(	string_
+    )`doc`	, repeat	i64 metadata , @lengthOf( string_
+) i8 // c
+u")).
+Eval vm_compute in ("<<<M898>>>" ++ check (runes_of_ascii "packet metadata {@lengthOf(
+i8i8
+)match BodyLength as
+    Foo
+{
+    3 : len ,} , body
+    @lengthOf(	roots
+    ),f32a x ,} root packet i8i8
+    {zchar[10
+    ]
+i64_  @calculatedFrom(""a\\""
+) `
+`
+, } // packet A { u8 x, }")).
+Eval vm_compute in ("<<<M1371>>>" ++ check (runes_of_ascii "
+packet  _x {	repeat
+    // packet A { u8 x, }
+    A{
+    int64 uint8x `tab	here` ,
+}
+    , } packet Pad  { @tag(	65535
+)string _x //x
+@lengthOf( asx)  , @rightPad ( '0'	)u8 MetaDataX , u64 chars,
+    // c
+    }
+
+")).
+Eval vm_compute in ("<<<M3950>>>" ++ check (runes_of_ascii "MetaData
+body { string
+MetaDataX
+
+`" ++ [28040; 24687; 31867; 22411]%N ++ runes_of_ascii "` ,	}
+options  {
+	zchar 	 // packet A { u8 x, }
+=
+false
+	}  packet chars 	 // a // b
+{@tag( 
+42
+    )
+    len roots
+
+,
+    @rightPad( )Header
+
+@lengthOf(
+charz
+	),
+}
+")).
+Eval vm_compute in ("<<<M3480>>>" ++ check (runes_of_ascii "// top
+packet // c0
+chars // c1
+{ // c2
+} // c3
+packet // c4
+MetaDataX // c5
+{ // c6
+@tag( // c7
+42 // c8
+) // c9
+i16 // c10
+string_ // c11
+, // c12
+repeat // c13
+x // c14
+`say ""hi""` // c15
+, // c16
+} // c17
 ")).
 Eval vm_compute in ("<<<M664>>>" ++ check (runes_of_ascii "root packet // `tick` ""quote"" 'q'
 metadata {uint64// @lengthOf(
@@ -2078,10 +2184,10 @@ packet Logon {
 u16 string_ `u8 x,` ,
 }
 ")).
-Eval vm_compute in ("<<<M1744>>>" ++ check (runes_of_ascii "options { trueish = ""`tick`"" ; string_= """ ++ [233]%N ++ runes_of_ascii "t" ++ [233]%N ++ runes_of_ascii """
+Eval vm_compute in ("<<<M1736>>>" ++ check (runes_of_ascii "options { trueish = ""`tick`"" ; string_= """ ++ [233]%N ++ runes_of_ascii "t" ++ [233]%N ++ runes_of_ascii """
     // c
     } root
-    packet body { repeat @calculatedFrom(
+    packet body  stringy @calculatedFrom(
 ""a	b"" ) `line1
 line2` , }
 packet Logon {
@@ -2100,68 +2206,183 @@ packet Logon {
     @leftPad(
     ' ' ) //	t
 u16 string_ `u8 x,`")).
-Eval vm_compute in ("<<<M1167>>>" ++ check (runes_of_ascii "  options { } packet Logon{} packet Foo
+Eval vm_compute in ("<<<M162>>>" ++ check (runes_of_ascii "MetaData
+    lengthOf
 {
-    uint8x _x // a // b
-`" ++ [28040; 24687; 31867; 22411]%N ++ runes_of_ascii "` ,
-    } packet
-u8x	{
-rootA , }
-    options
-    // packet A { u8 x, }
-    {
-msg_type = false stringy=
-    ' '
-    } 	 ")).
-Eval vm_compute in ("<<<M1325>>>" ++ check (runes_of_ascii "//
-packet x_y_z
-    // `tick` ""quote"" 'q'
-    {
-@calculatedFrom(""x y""  )	@calculatedFrom( ""packet"" ) @calculatedFrom(""CRC32""
-    ) a1 uint8x
-    //
-    `u8 x,`
-// " ++ [128512]%N ++ runes_of_ascii " emoji
-// @lengthOf(
-,}
+char[0123456789] calculatedFrom ,
+char[ 0
+]
+options1
+    ,
+    } MetaData  repeatCount
+{ // packet A { u8 x, }
+u64 len ,
+    stringy x_y_z `it's` // a // b
+, f32 As ,	}
 ")).
-Eval vm_compute in ("<<<M4024>>>" ++ check (runes_of_ascii "  packet Foo
-
-{ }  packet
-
-MetaDataX 
-{
-char[]
-
-    Logon
-    // trailing space 
-    	//
-
-  , 
+Eval vm_compute in ("<<<M1606>>>" ++ check (runes_of_ascii "packet
+//	t
+// trailing space 
+_x {
+// packet A { u8 x, }
+// c
+char[
+3
+    ] u8x @lengthOf(
+u8x ) , @calculatedFrom(""" ++ [128512]%N ++ runes_of_ascii """ // @lengthOf(
+)
+i16	Foo
+@lengthOf(	string_
+    )`doc`	, repeat	i64")).
+Eval vm_compute in ("<<<M4142>>>" ++ check (runes_of_ascii "MetaData chars {
+    int64 metadata,
+    char[00] stringy,
+    f64 Foo,
 }
 
-    root 
-packet 
-MetaDataX
+options {
+}
+
+options {
+    As = char[4294967296]
+    A = ""x y""
+    options1 = float32
+    Logon = '\x00';
+}")).
+Eval vm_compute in ("<<<M515>>>" ++ check (runes_of_ascii "// " ++ [27880; 37322]%N ++ runes_of_ascii "
+MetaData// a // b
+int
 {
-	match Z9_
-	as zchar	{ 7
-:
-    zchar	,
-    } ,}
+    // `tick` ""quote"" 'q'
+    char[
+    4294967296 ] packetx
+    `line1
+line2`,rootA // trailing space 
+matchKey`two words`, matchKey Packet , }")).
+Eval vm_compute in ("<<<M4416>>>" ++ check (runes_of_ascii "// top
+MetaData float {
+    // c2
+    float64 charz `
+    `,
+    // c6
+}
+
+// c7
+root packet chars {
+    // c11
+    @rightPad('0')
+    // c15
+    Foo,
+    // c17
+}
+// c18")).
+Eval vm_compute in ("<<<M2417>>>" ++ check (runes_of_ascii "// c
+packet x { @lengthOf( metadata ) repeat lengthOf lengthOf
+,a1{
+trueish	,// c
+repeat//	t
+MetaDataX , } , zchar[
+    42	] rootA // `tick` ""quote"" 'q'
+,
+    }
 ")).
-Eval vm_compute in ("<<<M1219>>>" ++ check (runes_of_ascii "
-packet u128{@leftPad //x
-( ' '
-    ) @tag( 3 ) @calculatedFrom(
-    /// triple
-    ""abc"" ) repeat A
-    ,  } packet
-x {
-u16 Z9_
-`u8 x,` // c
-, }packet	int { Logon	chars , }")).
-Eval vm_compute in ("<<<M2083>>>" ++ check (runes_of_ascii "options@calculatedFrom(
+Eval vm_compute in ("<<<M3825>>>" ++ check (runes_of_ascii "packet o {
+    asx @calculatedFrom(""CRC32"") `it's`,// @lengthOf(
+    @tag(255)
+    int16 T,
+    string msg_type `
+        `,
+}// trailing space 
+
+packet Z9_ {
+}")).
+Eval vm_compute in ("<<<M3362>>>" ++ check (runes_of_ascii "// top
+packet // c0a
+  // c0b
+x
+    // c1
+{ @rightPad
+    // c3
+( // c4a
+  // c4b
+) repeat roots
+    // c7
+Logon // c8
+`doc`
+    // c9
+, } // c11a
+  // c11b
+")).
+Eval vm_compute in ("<<<M2328>>>" ++ check (runes_of_ascii "// c
+p?acket x { @lengthOf( metadata ) repeat lengthOf
+,a1{
+trueish	,// c
+repeat//	t
+MetaDataX , } , zchar[
+    42	] rootA // `tick` ""quote"" 'q'
+,
+    }
+")).
+Eval vm_compute in ("<<<M2331>>>" ++ check (runes_of_ascii "// c
+x packet { @lengthOf( metadata ) repeat lengthOf
+,a1{
+trueish	,// c
+repeat//	t
+MetaDataX , } , zchar[
+    42	] rootA // `tick` ""quote"" 'q'
+,
+    }
+")).
+Eval vm_compute in ("<<<M2395>>>" ++ check (runes_of_ascii "// c
+packet x { @lengthOf( metadata ) repeat lengthOf
+a1{
+trueish	,// c
+repeat//	t
+MetaDataX , } , zchar[
+    42	] rootA // `tick` ""quote"" 'q'
+,
+    }
+")).
+Eval vm_compute in ("<<<M2171>>>" ++ check (runes_of_ascii "options{
+_x
+= true
+} options
+{ o	= /// triple
+false
+    ; chars
+= ""\n"" } root packet	Pad
+/// triple
+// packet A { u8 x, }
+chars	{
+    // a // b
+    ,}")).
+Eval vm_compute in ("<<<M4292>>>" ++ check (runes_of_ascii "  root  packet
+leftPad
+	{ 
+int64	BodyLength`// not a comment` ,@tag( 0 
+)
+@leftPad(
+
+    )
+	@tag(255
+
+)
+    repeat
+	Header  // @lengthOf(
+,
+}  // c
+")).
+Eval vm_compute in ("<<<M2349>>>" ++ check (runes_of_ascii "// c
+packet x { @lengthOf( metadata ) repeat lengthOf
+,a1{
+trueish	,// c
+repeat//	t
+MetaDataX , } , 
+    42	] rootA // `tick` ""quote"" 'q'
+,
+    }
+")).
+Eval vm_compute in ("<<<M2076>>>" ++ check (runes_of_ascii "{
 _x
 = true
 } options
@@ -2174,324 +2395,183 @@ false
 {	chars
     // a // b
     ,}")).
-Eval vm_compute in ("<<<M1959>>>" ++ check (runes_of_ascii "MetaData
-    u { }  options {
-// c
-// @lengthOf(
-float = int8 ;rootA =false ; As =	int16 // `tick` ""quote"" 'q'
-repeatCount
-    // trailing space 
-    =
-    int16")).
-Eval vm_compute in ("<<<M455>>>" ++ check (runes_of_ascii "root packet
-repeatCount {  }
-    MetaData // a // b
-crc
-{
-float32 x ,	float64 falsey `
-` , //x
-u32 //
-f32a`" ++ [233]%N ++ runes_of_ascii "` ,uint16 MetaDataX
-,
-}options	{ len
-= 10
-    }
-")).
-Eval vm_compute in ("<<<M58>>>" ++ check (runes_of_ascii "root packet chars { /// triple
-int16 trueish	@lengthOf( MetaDataX)
-`tab	here`,} MetaData
-T
-// a // b
-// c
-{
-    int64 packetx `doc`
-    // @lengthOf(
-    ,}")).
-Eval vm_compute in ("<<<M2410>>>" ++ check (runes_of_ascii "// c
-packet x { @lengthOf( metadata ) repeat lengthOf
-,a1{
-trueish	?,// c
-repeat//	t
-MetaDataX , } , zchar[
-    42	] rootA // `tick` ""quote"" 'q'
-,
-    }
-")).
-Eval vm_compute in ("<<<M2397>>>" ++ check (runes_of_ascii "// c
-packet x { @lengthOf( metadata ) repeat lengthOf
-,a1{
-trueish	,// c
-repeat//	t
-MetaDataX , } , zchar[
-    42	] rootA // `tick` ""quote"" 'q'
-}
-    ,
-")).
-Eval vm_compute in ("<<<M4164>>>" ++ check (runes_of_ascii "packet metadata {
-    Logon {
-        // c4
-        A `" ++ [28040; 24687; 31867; 22411]%N ++ runes_of_ascii "`,// c7a
-        // c7b
-        tag o,// c10a
-    },// c12
-    zchar len `// not a comment`,
-}")).
-Eval vm_compute in ("<<<M2373>>>" ++ check (runes_of_ascii "// c
-packet x { @lengthOf( metadata ) repeat lengthOf
-,a1{
-trueish	,// c
-repeat//	t
-MetaDataX , } , zchar[
-    	] rootA // `tick` ""quote"" 'q'
-,
-    }
-")).
-Eval vm_compute in ("<<<M1286>>>" ++ check (runes_of_ascii "
-packet u { repeat char[// " ++ [27880; 37322]%N ++ runes_of_ascii "
-10] crc
-, repeat string x  ,  match
-//	t
-//
-charz as
-    tag{
-007 :
-options1
-    , } ,Packet @lengthOf(trueish
-) ,
-}")).
-Eval vm_compute in ("<<<M1790>>>" ++ check (runes_of_ascii "options { trueish = ""`tick`"" ; string_= """ ++ [233]%N ++ runes_of_ascii "t" ++ [233]%N ++ runes_of_ascii """
+Eval vm_compute in ("<<<M1785>>>" ++ check (runes_of_ascii "options { trueish = ""`tick`"" ; string_= """ ++ [233]%N ++ runes_of_ascii "t" ++ [233]%N ++ runes_of_ascii """
     // c
     } root
     packet body { stringy @calculatedFrom(
 ""a	b"" ) `line1
 line2` , }
-packet Logon")).
-Eval vm_compute in ("<<<M1571>>>" ++ check (runes_of_ascii "packet
-//	t
-// trailing space 
-_x {
-// packet A { u8 x, }
-// c
-char[
-3
-    ] u8x @lengthOf(
-u8x ) , @calculatedFrom(""" ++ [128512]%N ++ runes_of_ascii """ // @lengthOf(
-)
-i16	Foo")).
-Eval vm_compute in ("<<<M3941>>>" ++ check (runes_of_ascii "
-
-  packet	A  { u8
-
-a,
-} packet 
-B 
-{	u16
-b	,
-	}
-root
-
-packet
-
-    P  {
-u8
-K
-, match K
-
-    as
-    M  {1
-	:A
-
-    ,1
-
-:  B ,
-}
-,
-	}")).
-Eval vm_compute in ("<<<M1418>>>" ++ check (runes_of_ascii "
-packet
-    falsey { Header@calculatedFrom( @calculatedFrom(""packet""  ) , char[
-    0123456789 ] packetx
-    , } // `tick` ""quote"" 'q'")).
-Eval vm_compute in ("<<<M4188>>>" ++ check (runes_of_ascii "
-options  {
-    options1
-    =uint64
-;
-
-} root packet /// triple
-T {
-
-MetaDataX  //x
-		`// not a comment` ,}
-packet
-    crc { }
-")).
-Eval vm_compute in ("<<<M935>>>" ++ check (runes_of_ascii "options	{ // " ++ [27880; 37322]%N ++ runes_of_ascii "
-zchar=	zchar[ 7
-]	;
-    asx = 10 ;
-zchar
-    = ""a\\"" ; float = 10
-Logon
-= '0';
-    }MetaData	crc {
-    }
-")).
-Eval vm_compute in ("<<<M3359>>>" ++ check (runes_of_ascii "root packet matchKey { zchar[ 3 ] pack @calculatedFrom( ""a	b"" ) `doc` , } options { } MetaData A { int8 msg_type , }
-// c
-")).
-Eval vm_compute in ("<<<M3331>>>" ++ check (runes_of_ascii "root packet matchKey { zchar[ 3 ] pack @calculatedFrom( ""a	b""
-// c
-) `doc` , } options { } MetaData A { int8 msg_type , }")).
-Eval vm_compute in ("<<<M3871>>>" ++ check (runes_of_ascii "root packet matchKey {
-    zchar[3] pack @calculatedFrom(""a	b"") `doc`,
-}
-
-options {
-}
-
-MetaData A {
-    int8 msg_type,
+packet")).
+Eval vm_compute in ("<<<M210>>>" ++ check (runes_of_ascii "packet
+i64_
+{ f64 float,@tag( 0 ) @lengthOf(u )
+    float64 _x  @calculatedFrom(
+    ""x y"" )
+,}
+MetaData matchKey {
+} packet roots { }")).
+Eval vm_compute in ("<<<M4009>>>" ++ check (runes_of_ascii "packet A {
+    match k as n {
+        [
+            ""a"", ""bb"", 007, ""d"", ""e"",
+            66
+        ] : B,
+        2 : C,
+    },
 }")).
-Eval vm_compute in ("<<<M3918>>>" ++ check (runes_of_ascii "packet Z9_ {
-}
-
-MetaData falsey {
-    string len `tab	here`,
-    i32 asx,
-    uint8 pack,
-}
-
-options {
-    _x = true
-}")).
-Eval vm_compute in ("<<<M1432>>>" ++ check (runes_of_ascii "
-packet
-    falsey { Header@calculatedFrom(""packet""  )  char[
-    0123456789 ] packetx
-    , } // `tick` ""quote"" 'q'")).
-Eval vm_compute in ("<<<M4592>>>" ++ check (runes_of_ascii "options {
-}
-
-packet As {
-    f32 int @calculatedFrom(""{,}""),
-    u8 packetx,
-    u128 len,
-}
-
-packet options1 {
-}")).
-Eval vm_compute in ("<<<M1425>>>" ++ check (runes_of_ascii "
-packet
-    falsey { Header@calculatedFrom(,  ) , char[
-    0123456789 ] packetx
-    , } // `tick` ""quote"" 'q'")).
-Eval vm_compute in ("<<<M1442>>>" ++ check (runes_of_ascii "
+Eval vm_compute in ("<<<M1453>>>" ++ check (runes_of_ascii "
 packet
     falsey { Header@calculatedFrom(""packet""  ) , char[
-     ] packetx
+    0123456789 ] packetx packetx
     , } // `tick` ""quote"" 'q'")).
-Eval vm_compute in ("<<<M3930>>>" ++ check (runes_of_ascii "packet metadata {
-    Logon {
-        A `" ++ [28040; 24687; 31867; 22411]%N ++ runes_of_ascii "`,
-        tag o,
-    },
-    zchar len `// not a comment`,
-}")).
-Eval vm_compute in ("<<<M838>>>" ++ check (runes_of_ascii "options{ x_y_z = ""CRC32"" ;
-} MetaData
-matchKey { char[] u `u8 x,` , // trailing space 
-}options {}
+Eval vm_compute in ("<<<M1127>>>" ++ check (runes_of_ascii "options  {
+}options
+{rootA =
+zchar[ 255 ];
+} options { Packet
+    // `tick` ""quote"" 'q'
+    =
+    0123456789; a1	= """" }
 ")).
-Eval vm_compute in ("<<<M2367>>>" ++ check (runes_of_ascii "// c
+Eval vm_compute in ("<<<M3325>>>" ++ check (runes_of_ascii "root packet matchKey { zchar[ 3 ]
+// c
+pack @calculatedFrom( ""a	b"" ) `doc` , } options { } MetaData A { int8 msg_type , }")).
+Eval vm_compute in ("<<<M3357>>>" ++ check (runes_of_ascii "root packet matchKey { zchar[ 3 ] pack @calculatedFrom( ""a	b"" ) `doc` , } options { } MetaData A { int8 msg_type ,
+// c
+}")).
+Eval vm_compute in ("<<<M1478>>>" ++ check (runes_of_ascii "
+packet
+    falsey { Header@calcul" ++ [8232]%N ++ runes_of_ascii "atedFrom(""packet""  ) , char[
+    0123456789 ] packetx
+    , } // `tick` ""quote"" 'q'")).
+Eval vm_compute in ("<<<M1459>>>" ++ check (runes_of_ascii "
+packet
+    falsey { Header@calculatedFrom(""packet""  ) , char[
+    0123456789 ] packetx
+    } , // `tick` ""quote"" 'q'")).
+Eval vm_compute in ("<<<M2368>>>" ++ check (runes_of_ascii "// c
 packet x { @lengthOf( metadata ) repeat lengthOf
 ,a1{
 trueish	,// c
 repeat//	t
-MetaDataX , }")).
-Eval vm_compute in ("<<<M3855>>>" ++ check (runes_of_ascii "MetaData tag {
-    char[3] u8x,
-    packetx a1,
+MetaDataX , } , zchar[
+    42")).
+Eval vm_compute in ("<<<M3739>>>" ++ check (runes_of_ascii "// @lengthOf(
+options {
+    u128 = ' '
+    chars = char;
+    float = ""// no comment""
+    repeatCount = false;
+}")).
+Eval vm_compute in ("<<<M35>>>" ++ check (runes_of_ascii "options { body = 42 ;Logon
+// @lengthOf(
+// " ++ [27880; 37322]%N ++ runes_of_ascii "
+=
+    '0'
+    ; metadata=
+""" ++ [128512]%N ++ runes_of_ascii """; Foo =true//
+i64_
+='\x00'  }
+")).
+Eval vm_compute in ("<<<M3672>>>" ++ check (runes_of_ascii "packet  chars{
 }
 
-MetaData chars {
-    i16 uint8x `tab	here`,
+packet	MetaDataX  { @tag(42	)
+
+    i16 
+string_
+
+,// c
+    repeat x 
+`say ""hi""`  , } ")).
+Eval vm_compute in ("<<<M3681>>>" ++ check (runes_of_ascii "MetaData trueish {
+    int falsey,
+    char[10] u,
+    zchar[007] leftPad,
+    string x `two words`,
 }")).
-Eval vm_compute in ("<<<M1465>>>" ++ check (runes_of_ascii "
-packet
-    falsey { Header@calculatedFrom(""packet""  ) , char[
-    0123456789 ] packetx
-    ,")).
-Eval vm_compute in ("<<<M3538>>>" ++ check (runes_of_ascii "packet Inner
-
-{u8
-
-a , }	root packet
-	P
-	{ repeat
-
-    Inner items , u8
-    x
-
-    , 
+Eval vm_compute in ("<<<M3870>>>" ++ check (runes_of_ascii "packet T {
+    @lengthOf(matchKey)
+    match u as crc {
+        [""it's"", ""CRC32"", 3] : Z9_,
+    },
 }")).
-Eval vm_compute in ("<<<M2962>>>" ++ check (runes_of_ascii "packet A {
+Eval vm_compute in ("<<<M2938>>>" ++ check (runes_of_ascii "packet A {
   match k as n {
-    [1, 22, 007, 4, 5, 66, 7, 8, 9, 10] : B,
+    [""a"", ""bb"", ""c c"", ""d"", ""e"", ""f"", ""g"", ""h""] : B,
     2 : C
   },
 }")).
-Eval vm_compute in ("<<<M3299>>>" ++ check (runes_of_ascii "MetaData float { float64 charz `
-` , } root packet chars { @rightPad ( '0' ) // c
-Foo , }")).
-Eval vm_compute in ("<<<M3510>>>" ++ check (runes_of_ascii "packet chars { } packet MetaDataX { @tag( 42 ) i16 string_ ,
-// c
-repeat x `say ""hi""` , }")).
-Eval vm_compute in ("<<<M3687>>>" ++ check (runes_of_ascii "
-
-  packet A
-
-    {
-
-match 
-k
-	as n 
-{1  :
-    B
-2
-    :  C""s""
-
-: D[
-1] : E
-}  ,	}
+Eval vm_compute in ("<<<M846>>>" ++ check (runes_of_ascii "packet
+// @lengthOf(
+// " ++ [128512]%N ++ runes_of_ascii " emoji
+len{ @calculatedFrom( ""it's"")
+    calculatedFrom msg_type
+, }
 ")).
-Eval vm_compute in ("<<<M129>>>" ++ check (runes_of_ascii "MetaData
-    charz { } packet
-    // " ++ [27880; 37322]%N ++ runes_of_ascii "
-    matchKey {
-    a1
-    repeatCount
-    , }
+Eval vm_compute in ("<<<M76>>>" ++ check (runes_of_ascii "MetaData
+chars {
+uint32 chars	`doc` , int64 float, // trailing space 
+u8
+pack `
+` ,
+    }
 ")).
-Eval vm_compute in ("<<<M3217>>>" ++ check (runes_of_ascii "packet metadata { // c
-Logon { A `" ++ [28040; 24687; 31867; 22411]%N ++ runes_of_ascii "` , tag o , } , zchar len `// not a comment` , }")).
-Eval vm_compute in ("<<<M3466>>>" ++ check (runes_of_ascii "packet o { repeat Logon uint8x , } options { asx = zchar[ 3 ] stringy = '\x00' }
-// c
-")).
-Eval vm_compute in ("<<<M3437>>>" ++ check (runes_of_ascii "packet o { repeat Logon // c
-uint8x , } options { asx = zchar[ 3 ] stringy = '\x00' }")).
-Eval vm_compute in ("<<<M1397>>>" ++ check (runes_of_ascii "root packet SimpleMessage {
-	uint16 MsgType `" ++ [28040; 24687; 31867; 22411]%N ++ runes_of_ascii "`,
-	string JsonBody `Json" ++ [23383; 31526; 20018; 28040; 24687; 20307]%N ++ runes_of_ascii "`,
+Eval vm_compute in ("<<<M1395>>>" ++ check (runes_of_ascii "root packet SimpleMessage {
+    uint16 MsgType `" ++ [28040; 24687; 31867; 22411]%N ++ runes_of_ascii "`,
+    string JsonBody `Json" ++ [23383; 31526; 20018; 28040; 24687; 20307]%N ++ runes_of_ascii "`,
 }")).
-Eval vm_compute in ("<<<M4579>>>" ++ check (runes_of_ascii "packet A {
-    match k as n {
-        [22, ""a"", ""c c""] : B,
-        2 : C,
-    },
+Eval vm_compute in ("<<<M3273>>>" ++ check (runes_of_ascii "MetaData float { // c
+float64 charz `
+` , } root packet chars { @rightPad ( '0' ) Foo , }")).
+Eval vm_compute in ("<<<M3483>>>" ++ check (runes_of_ascii "// c
+packet chars { } packet MetaDataX { @tag( 42 ) i16 string_ , repeat x `say ""hi""` , }")).
+Eval vm_compute in ("<<<M3516>>>" ++ check (runes_of_ascii "packet chars { } packet MetaDataX { @tag( 42 ) i16 string_ , repeat x `say ""hi""`
+// c
+, }")).
+Eval vm_compute in ("<<<M1461>>>" ++ check (runes_of_ascii "
+packet
+    falsey { Header@calculatedFrom(""packet""  ) , char[
+    0123456789 ] packetx")).
+Eval vm_compute in ("<<<M1353>>>" ++ check (runes_of_ascii "MetaData As { char[]calculatedFrom
+,x a1 , int16 //	t
+matchKey `two words` ,
+    }
+")).
+Eval vm_compute in ("<<<M3224>>>" ++ check (runes_of_ascii "packet metadata { Logon { A
+// c
+`" ++ [28040; 24687; 31867; 22411]%N ++ runes_of_ascii "` , tag o , } , zchar len `// not a comment` , }")).
+Eval vm_compute in ("<<<M2216>>>" ++ check (runes_of_ascii "options
+{  options { BodyLength= u16 Header= f64 ; u128 =
+    true
+    ; } // a // b")).
+Eval vm_compute in ("<<<M3447>>>" ++ check (runes_of_ascii "packet o { repeat Logon uint8x , } options { // c
+asx = zchar[ 3 ] stringy = '\x00' }")).
+Eval vm_compute in ("<<<M4221>>>" ++ check (runes_of_ascii "MetaData T {
+    uint16 roots,
+    As lengthOf,
+    As trueish,
+    char[] Packet,
 }")).
-Eval vm_compute in ("<<<M3414>>>" ++ check (runes_of_ascii "MetaData body { i64 pack `it's` , } packet stringy { // c
-int16 calculatedFrom , }")).
+Eval vm_compute in ("<<<M2916>>>" ++ check (runes_of_ascii "packet A {
+  match k as n {
+    [""a"", 22, ""c c"", 4, ""e"", 66] : B,
+    2 : C
+  },
+}")).
+Eval vm_compute in ("<<<M3588>>>" ++ check (runes_of_ascii "packet order_item
+	{ u8 
+a ,
+} 
+root  packet
+	new_order 
+{ order_item
+
+, 
+u8
+
+x,}
+")).
 Eval vm_compute in ("<<<M3178>>>" ++ check (runes_of_ascii "packet A { u16 // a
  len // b
  @lengthOf( // c
@@ -2499,122 +2579,143 @@ Eval vm_compute in ("<<<M3178>>>" ++ check (runes_of_ascii "packet A { u16 // a
  ) // e
  `d` // f
  , }")).
-Eval vm_compute in ("<<<M1929>>>" ++ check (runes_of_ascii "MetaData
-    u { }  options {
-// c
-// @lengthOf(
-float = int8 ;rootA =false ;")).
-Eval vm_compute in ("<<<M3759>>>" ++ check (runes_of_ascii "packet i64_ {
+Eval vm_compute in ("<<<M3952>>>" ++ check (runes_of_ascii "MetaData repeatCount {
 }
 
 options {
+    // packet A { u8 x, }
 }
-
-options {
-    MetaDataX = ""CRC32""
-}// a // b")).
-Eval vm_compute in ("<<<M2898>>>" ++ check (runes_of_ascii "packet A {
-  match k as n {
-    [1, 22, 007, 4, 5] : B
-    2 : C
-  },
-}")).
-Eval vm_compute in ("<<<M1914>>>" ++ check (runes_of_ascii "MetaData
-    u { }  options {
-// c
-// @lengthOf(
-float = int8 ;rootA")).
-Eval vm_compute in ("<<<M3884>>>" ++ check (runes_of_ascii "
-packet
-Header
-
-    {  i32
-	float
-,
-
-} // `tick` ""quote"" 'q'
- 
+// @lengthOf(")).
+Eval vm_compute in ("<<<M3533>>>" ++ check (runes_of_ascii "packet Inner {
+    u8 a,
+}
+root packet P {
+    Inner ref_obj,
+    u8 x,
+}
 ")).
-Eval vm_compute in ("<<<M1205>>>" ++ check (runes_of_ascii "MetaData stringy{ zchar[ 007 ] body /// triple
-`tab	here` , }
+Eval vm_compute in ("<<<M4385>>>" ++ check (runes_of_ascii "packet A {
+    B b `
+    x`,
+    B `
+    x`,
+    repeat B bs `
+    x`,
+}")).
+Eval vm_compute in ("<<<M3567>>>" ++ check (runes_of_ascii "root packet P {
+    u16 a,
+    u32 Sum @calculatedFrom(""CR\
+C32""),
+}
 ")).
-Eval vm_compute in ("<<<M2862>>>" ++ check (runes_of_ascii "packet A {
-  match k as n {
-    [1, 22] : B,
-    2 : C
-  },
+Eval vm_compute in ("<<<M3008>>>" ++ check (runes_of_ascii "packet A {
+    B b `a
+b`,
+    B `a
+b`,
+    repeat B bs `a
+b`,
 }")).
-Eval vm_compute in ("<<<M2606>>>" ++ check (runes_of_ascii "packet A { match k as n { 1 : B 2 : C ""s"" : D [1] : E }, }")).
-Eval vm_compute in ("<<<M4148>>>" ++ check (runes_of_ascii "// packet A { u8 x, }
-MetaData MetaDataX {
-    u8 roots,
+Eval vm_compute in ("<<<M1144>>>" ++ check (runes_of_ascii "packet
+    pack { int64 options1  ,
+// packet A { u8 x, }
+//
+}
+")).
+Eval vm_compute in ("<<<M842>>>" ++ check (runes_of_ascii "  root packet crc{ string uint8x
+//x
+// " ++ [128512]%N ++ runes_of_ascii " emoji
+`" ++ [233]%N ++ runes_of_ascii "` ,}
+// " ++ [27880; 37322]%N ++ runes_of_ascii "
+")).
+Eval vm_compute in ("<<<M3829>>>" ++ check (runes_of_ascii "MetaData M {
+    u8 x `x
+        `,
+    T t `x
+        `,
 }")).
-Eval vm_compute in ("<<<M444>>>" ++ check (runes_of_ascii "// trailing space 
-options{	tag =""1""	; } // @lengthOf(")).
-Eval vm_compute in ("<<<M583>>>" ++ check (runes_of_ascii "options {Packet =
-    255 ; f32a
-    = '0'
-T= '0' }")).
+Eval vm_compute in ("<<<M3381>>>" ++ check (runes_of_ascii "packet x { @rightPad ( ) repeat roots Logon // c
+`doc` , }")).
+Eval vm_compute in ("<<<M2823>>>" ++ check (runes_of_ascii "as @leftPad char true @leftPad f32 MetaData int16 Logon")).
+Eval vm_compute in ("<<<M4583>>>" ++ check (runes_of_ascii "packet A {
+    u8 x `a
+            b
+          c`,
+}")).
 Eval vm_compute in ("<<<M3157>>>" ++ check (runes_of_ascii "packet A {} packet B {} MetaData M {} options {}")).
-Eval vm_compute in ("<<<M4196>>>" ++ check (runes_of_ascii "options {
-    a = ""\
-    "";
-    b = ""\
-    ""
+Eval vm_compute in ("<<<M4034>>>" ++ check (runes_of_ascii "root packet float {
+    repeat charz falsey,
 }")).
-Eval vm_compute in ("<<<M4434>>>" ++ check (runes_of_ascii "options {
-    Packet = 0
-    trueish = i8;
+Eval vm_compute in ("<<<M620>>>" ++ check (runes_of_ascii "  options { u8x =/// triple
+zchar[ 00 ] ; }")).
+Eval vm_compute in ("<<<M3017>>>" ++ check (runes_of_ascii "MetaData M {
+    u8 x `
+`,
+    T t `
+`,
 }")).
-Eval vm_compute in ("<<<M139>>>" ++ check (runes_of_ascii "MetaData
-packetx {  zchar[7
-]u128 , }
+Eval vm_compute in ("<<<M3524>>>" ++ check (runes_of_ascii "root packet P {
+    char c,
+    u8 x,
+}
 ")).
-Eval vm_compute in ("<<<M3198>>>" ++ check (runes_of_ascii "root packet u128 { chars
+Eval vm_compute in ("<<<M514>>>" ++ check (runes_of_ascii "root
+packet lengthOf { } options {}
+")).
+Eval vm_compute in ("<<<M4211>>>" ++ check (runes_of_ascii "MetaData zchar {
+    zchar[7] crc,
+}")).
+Eval vm_compute in ("<<<M2592>>>" ++ check (runes_of_ascii "packet A { x @calculatedFrom(c), }")).
+Eval vm_compute in ("<<<M979>>>" ++ check (runes_of_ascii "root packet calculatedFrom{ } 	 ")).
+Eval vm_compute in ("<<<M3018>>>" ++ check (runes_of_ascii "root packet A {
+    u8 x `
+`,
+}")).
+Eval vm_compute in ("<<<M3122>>>" ++ check (runes_of_ascii "packet A {
+ u8 x `d" ++ [12]%N ++ runes_of_ascii "`, // c" ++ [12]%N ++ runes_of_ascii "
+}")).
+Eval vm_compute in ("<<<M3001>>>" ++ check (runes_of_ascii "packet A {
+    u8 x `a
+b`,
+}")).
+Eval vm_compute in ("<<<M917>>>" ++ check (runes_of_ascii "
+options {	i8i8 = ""a\\"" }")).
+Eval vm_compute in ("<<<M3255>>>" ++ check (runes_of_ascii "root
 // c
-`it's` , }")).
-Eval vm_compute in ("<<<M3151>>>" ++ check (runes_of_ascii "packet A {    u8 x, // c    u8 y,}")).
-Eval vm_compute in ("<<<M3165>>>" ++ check (runes_of_ascii "options { a = 1; // a
- b = 2 // b
- }")).
-Eval vm_compute in ("<<<M459>>>" ++ check (runes_of_ascii "  MetaData a1 {
-    u64 packetx ,}")).
-Eval vm_compute in ("<<<M2774>>>" ++ check (runes_of_ascii "= @calculatedFrom( i16 true char[")).
-Eval vm_compute in ("<<<M773>>>" ++ check (runes_of_ascii "MetaData T{
-int64	i8i8 `` , }
-
-")).
-Eval vm_compute in ("<<<M3092>>>" ++ check (runes_of_ascii "packet A {
- u8 x `d" ++ [8202]%N ++ runes_of_ascii "`, // c" ++ [8202]%N ++ runes_of_ascii "
-}")).
-Eval vm_compute in ("<<<M2590>>>" ++ check (runes_of_ascii "packet A { x @lengthOf(3), }")).
-Eval vm_compute in ("<<<M792>>>" ++ check (runes_of_ascii "options { pack= int32 ;}
-")).
-Eval vm_compute in ("<<<M3254>>>" ++ check (runes_of_ascii "root // c
 packet pack { }")).
-Eval vm_compute in ("<<<M1288>>>" ++ check (runes_of_ascii "packet
-falsey
-    { }
-")).
-Eval vm_compute in ("<<<M2849>>>" ++ check (runes_of_ascii "z0`2w_O`%NxUiI'L*8[s/")).
-Eval vm_compute in ("<<<M393>>>" ++ check (runes_of_ascii " // trailing space ")).
-Eval vm_compute in ("<<<M3861>>>" ++ check (runes_of_ascii "root packet Z9_ {
+Eval vm_compute in ("<<<M840>>>" ++ check (runes_of_ascii "packet matchKey
+{
+} //x")).
+Eval vm_compute in ("<<<M912>>>" ++ check (runes_of_ascii "
+packet rootA
+    {
 }")).
-Eval vm_compute in ("<<<M3096>>>" ++ check (runes_of_ascii "// c" ++ [8232]%N ++ runes_of_ascii "
+Eval vm_compute in ("<<<M3479>>>" ++ check (runes_of_ascii "MetaData o { }
+// c
+")).
+Eval vm_compute in ("<<<M3470>>>" ++ check (runes_of_ascii "// c
+MetaData o { }")).
+Eval vm_compute in ("<<<M3091>>>" ++ check (runes_of_ascii "// c" ++ [8202]%N ++ runes_of_ascii "
 packet A {
 }")).
-Eval vm_compute in ("<<<M2633>>>" ++ check (runes_of_ascii "packet A { } root")).
+Eval vm_compute in ("<<<M2572>>>" ++ check (runes_of_ascii "packet A { x y, }")).
 Eval vm_compute in ("<<<M1019>>>" ++ check (runes_of_ascii "
 MetaData T { }
 ")).
 Eval vm_compute in ("<<<M2723>>>" ++ check (runes_of_ascii "@tag( char[ as")).
-Eval vm_compute in ("<<<M409>>>" ++ check (runes_of_ascii "// " ++ [128512]%N ++ runes_of_ascii " emoji
+Eval vm_compute in ("<<<M376>>>" ++ check (runes_of_ascii "
+options{}")).
+Eval vm_compute in ("<<<M4268>>>" ++ check (runes_of_ascii "
+// c" ++ [8233]%N ++ runes_of_ascii "
 ")).
-Eval vm_compute in ("<<<M2784>>>" ++ check (runes_of_ascii "drJtYG.{8")).
-Eval vm_compute in ("<<<M2468>>>" ++ check (runes_of_ascii "matches")).
-Eval vm_compute in ("<<<M286>>>" ++ check (runes_of_ascii " //	t")).
-Eval vm_compute in ("<<<M3104>>>" ++ check (runes_of_ascii "// c" ++ [8239]%N)).
-Eval vm_compute in ("<<<M2547>>>" ++ check (runes_of_ascii "a
-b")).
-Eval vm_compute in ("<<<M2549>>>" ++ check (runes_of_ascii "a" ++ [11]%N ++ runes_of_ascii "b")).
-Eval vm_compute in ("<<<M2684>>>" ++ check (runes_of_ascii "		")).
+Eval vm_compute in ("<<<M241>>>" ++ check (runes_of_ascii "
+
+//x
+")).
+Eval vm_compute in ("<<<M2441>>>" ++ check (runes_of_ascii "uint8")).
+Eval vm_compute in ("<<<M319>>>" ++ check (runes_of_ascii "
+//
+")).
+Eval vm_compute in ("<<<M621>>>" ++ check (runes_of_ascii " 	 ")).
+Eval vm_compute in ("<<<M2829>>>" ++ check (runes_of_ascii "t" ++ [1414]%N ++ runes_of_ascii "I")).
+Eval vm_compute in ("<<<M2506>>>" ++ check (runes_of_ascii """")).
